@@ -1,53 +1,61 @@
 """C09 - shortest paths are valid edge paths of minimum length (structural clauses).
 
-Static only: every rule reads the `ast` of /repo/mouette/processing/paths.py, cutting.py (the two
-Dijkstra siblings) and utils/priority_queue.py.  Nothing of mouette is imported or run.
-"""
+Static only: every rule reads the `ast` of /repo/mouette/processing/paths.py and utils/priority_queue.py (the anchor files of C09)
+and of the private helpers they call.  Nothing of mouette is imported or run.
+
+Every rule works on the *flattened* form of a function (msa/rules/hf_flat.py: private helpers / nested functions / generator
+helpers inlined, `extend(<generator>)` written as a loop, attribute and bound-method aliases replaced by what they name), finds
+its constructs by role (the name bound to PriorityQueue(), the table compared in the relaxation, the variable taken from
+queue.get() ...) and answers
+    ok         the obligation holds,
+    fail       a recognised construct contradicts it (the only way to raise an alarm),
+    undecided  the code has a shape the rule does not understand.
+`dijkstra` and `q1_priority_queue` are also used by C16 (dual Dijkstra loops of cutting.py) through a renaming proxy."""
 from __future__ import annotations
 import ast
 from fractions import Fraction
 from .. import au, sym, order, flow
 from ..core import AnalysisError
 from ..rules import skel0910 as sk
+from ..rules import hf_flat, hf_walk, hf_roles as hr
+from ..rules.hf_roles import FlatFn
 
 PATHS = "processing.paths"
-CUT = "processing.cutting"
 PQ = "utils.priority_queue"
 
-DIJKSTRA_SITES = [
-    (PATHS, "shortest_path"),
-    (PATHS, "shortest_path_to_vertex_set"),
-    (CUT, "SingularityCutter._build_dual_tree_no_features"),
-    (CUT, "SingularityCutter._build_dual_tree_with_features"),
-]
+ANCHORS = [(PATHS, "shortest_path"), (PATHS, "shortest_path_to_vertex_set")]
 
 EXPLANATION = (
-    "Static conformance of the shortest-path code to the Dijkstra skeleton: arity agreement of the weight "
-    "callables bound on sibling branches, confinement of the virtual-sink sentinel to the local dictionaries "
-    "(flow-sensitive for its aliases), running-offset invariant of build_path decided piecewise-symbolically in "
-    "len(path), the pop-min / visited / relaxation / push obligations applied uniformly to the four Dijkstra loops "
-    "(2 in paths.py, 2 in cutting.py), agreement of the three weight modes on the edge they read, the heap "
-    "contract of PriorityQueue, the predecessor back-tracking shape and positional forwarding between the path "
-    "functions. Decides structural necessary conditions, not optimality of returned paths.")
+    "Static conformance of the shortest-path code to the Dijkstra skeleton, decided on the flattened form of each function "
+    "(private helpers inlined, aliases resolved): arity agreement of the weight callables bound on sibling branches, confinement "
+    "of the virtual-sink sentinel to the local dictionaries (flow-sensitive for its aliases, with a positional model of the "
+    "back-tracked list), running-offset invariant of build_path decided piecewise-symbolically in len(path), the pop-min / "
+    "visited / relaxation / push obligations of every Dijkstra loop of paths.py, agreement of the three weight modes on the edge "
+    "they read, the heap contract of PriorityQueue, the predecessor back-tracking, freshness of the returned path lists and "
+    "forwarding of options between the path functions. Decides structural necessary conditions, not optimality of returned paths.")
 
 RULES = {
     "C09-A1": "all callables bound to one local name on sibling branches (edge_length) accept the arity of every call of that name",
-    "C09-E1": "the virtual sink sentinel (TARGET) only indexes dictionaries built locally; neither it nor an alias still holding it is "
-              "passed to another function, stored in a list, or returned (accepted: key of a dict literal handed to a function that only reads .values())",
+    "C09-E1": "the virtual sink sentinel only indexes dictionaries built locally; neither it nor an alias still holding it is passed to "
+              "another function, left in a returned list, or returned (accepted: key of a dict literal handed to a function that only reads "
+              ".values(); first element of the back-tracked list when that element is removed again)",
     "C09-F1": "build_path: the running offset equals the number of vertices already appended at the start of every path "
               "(advanced by exactly the number of vertices appended per path, for every path length) and edges join consecutive vertices of the block",
     "C09-D1": "Dijkstra loop runs while the PriorityQueue is not empty and takes the current node from PriorityQueue.get()/pop() (pop-min, removed)",
-    "C09-D2": "popped node: `if visited[v]: continue`, then visited[v] = True unconditionally, before the neighbour loop; visited starts False",
+    "C09-D2": "popped node: stale entries are skipped (`if visited[v]: continue`), the node is marked settled outside the neighbour loop; visited starts False",
     "C09-D3": "relaxation: candidate = label[v] + w(v, nv); update guarded by label[nv] > candidate (strict); label[nv] and predecessor[nv] "
-              "are written in that block only, label with the candidate, predecessor with the expanded node / crossed edge",
-    "C09-D4": "the neighbour is pushed with its updated label on every improving path (guarded at most by `not visited[nv]`); "
+              "are written under that test only, label with the candidate, predecessor with the expanded node / crossed edge",
+    "C09-D4": "the neighbour is pushed with its updated label after the update (guarded at most by `not visited[nv]`); "
               "labels start at +inf, label[start] is finite and start is pushed before the loop",
     "C09-W1": "the three weight modes read the weight of the edge being relaxed: both endpoints reach the weight, the custom mode is "
-              "indexed by edge_id(u, v) or by the enumeration index of the edge, never by a vertex; adjacency weights are stored symmetrically",
+              "indexed by edge_id(u, v) or by the enumeration index of the edge, never by a vertex; adjacency weights are stored symmetrically; "
+              "the 'length' mode measures the current geometry (not a stored attribute)",
     "C09-Q1": "PriorityQueue: get = heappop(self.data), pop delegates to it, push = heappush(self.data, PriorityItem(x, w)) with payload/priority "
               "in field order, items are ordered by `priority` with <, empty() == (len == 0), self.data is touched by nothing else",
     "C09-B1": "back-tracking walks the predecessor table written by the relaxation from the target until `start`, records every node once "
-              "including both ends (the sentinel excluded) and reverses the list",
+              "including both ends (the sentinel excluded) and ends with the list in start-to-target order",
+    "C09-B2": "the list returned for one target is a fresh list: an entry of the result dictionary is never extended in place through "
+              "another entry (`paths[t] = paths[v]; paths[t] += ...`)",
     "C09-R1": "a variable passed positionally to a function of paths.py lands in the parameter of the same name when the callee has one",
     "C09-R2": "a path function that delegates to another path function forwards every option it shares with the delegate (a parameter of the "
               "caller that the callee also has, with a default, is passed explicitly, positionally or by keyword): the callee's default never "
@@ -64,46 +72,180 @@ def run(ctx):
     e1_sentinel(ctx)
     f1_build_path(ctx)
     item = q1_priority_queue(ctx)
-    n = 0
-    for modname, qual in DIJKSTRA_SITES:
+    roles = {}
+    m = ctx.repo.module(PATHS)
+    for modname, qual in ANCHORS:
         fn = ctx.repo.func(modname, qual)
-        n += dijkstra(ctx, modname, fn, item)
-    # no other Dijkstra loop may hide in the two modules
-    for modname in (PATHS, CUT):
-        m = ctx.repo.module(modname)
-        for q, fn in m.funcs.items():
-            if (modname, q) in DIJKSTRA_SITES:
-                continue
-            if pq_names(fn):
-                dijkstra(ctx, modname, fn, item)
+        n, rs = dijkstra(ctx, modname, fn, item, want_roles=True)
+        roles[qual] = rs
+    # a Dijkstra loop in a public function that is not an anchor (private helpers are analysed inlined in the anchors)
+    for q, fn in sorted(m.funcs.items()):
+        if "." in q or (PATHS, q) in ANCHORS or hf_flat.is_private(q):
+            continue
+        if pq_names(FlatFn(ctx.repo, PATHS, fn).fn):
+            dijkstra(ctx, PATHS, fn, item)
     w1_weight_modes(ctx)
-    b1_backtracking(ctx)
+    b1_backtracking(ctx, roles)
+    b2_fresh_paths(ctx)
     r1_forwarding(ctx)
+
+
+def _absent(ctx, F, region, rule, site, construct, what):
+    """report that something is missing: a violation only when the region is fully visible to the rules, undecided otherwise"""
+    if F.opaque(region):
+        ctx.undecided(rule, site, construct, "part of the code concerned is not visible to the rule (a helper that was not inlined, a staged list ..)")
+    else:
+        ctx.fail(rule, site, construct, what)
+
+
+def _flat(ctx, modname, fn):
+    cache = getattr(ctx.repo, "_hf_flatfn", None)
+    if cache is None:
+        cache = ctx.repo._hf_flatfn = {}
+    k = (modname, id(fn))
+    if k not in cache:
+        cache[k] = FlatFn(ctx.repo, modname, fn)
+        if modname != PQ:
+            _queue_normal_form(ctx, cache[k])
+    return cache[k]
+
+
+def _queue_normal_form(ctx, F):
+    """a local list driven directly by heapq (`heappush(h, PriorityItem(x, w))`, `heappop(h)`, `len(h) > 0`) and truth tests of the heap list of a
+    PriorityQueue (`while queue.data:`) are written with the PriorityQueue operations the rules know: push / get / empty"""
+    fn = F.fn
+    heaps = set()
+    for c in au.calls(fn):
+        if au.call_tail(c) in ("heappush", "heappop") and c.args and isinstance(c.args[0], ast.Name):
+            d = F.definition(c.args[0].id, c)
+            if (isinstance(d, ast.List) and not d.elts) or (isinstance(d, ast.Call) and au.call_tail(d) == "list" and not d.args):
+                heaps.add(c.args[0].id)
+    queues = pq_names(fn)
+    if not heaps and not queues:
+        return
+    try:
+        item = ctx.repo.cls(PQ, "PriorityItem")
+        fields = [st.target.id for st in item.body if isinstance(st, ast.AnnAssign) and isinstance(st.target, ast.Name)]
+    except AnalysisError:
+        fields = ["x", "priority"]
+    bad = [False]
+
+    def empty_call(name, at):
+        return ast.copy_location(ast.Call(func=ast.Attribute(value=ast.Name(id=name, ctx=ast.Load()), attr="empty", ctx=ast.Load()), args=[], keywords=[]), at)
+
+    def heap_of(e):
+        """name of the queue object whose heap list `e` denotes: a raw heap name, or <PriorityQueue>.data"""
+        if isinstance(e, ast.Name) and e.id in heaps:
+            return e.id
+        if isinstance(e, ast.Attribute) and e.attr == "data" and isinstance(e.value, ast.Name) and e.value.id in queues:
+            return e.value.id
+        return None
+
+    class T(ast.NodeTransformer):
+        def visit_Call(self, n):
+            self.generic_visit(n)
+            t = au.call_tail(n)
+            if t == "heappush" and len(n.args) == 2 and isinstance(n.args[0], ast.Name) and n.args[0].id in heaps:
+                it = n.args[1]
+                if isinstance(it, ast.Call) and au.call_tail(it) == "PriorityItem":
+                    got = {}
+                    for i, a in enumerate(it.args):
+                        if i < len(fields):
+                            got[fields[i]] = a
+                    for kw in it.keywords:
+                        got[kw.arg] = kw.value
+                    if len(fields) >= 2 and fields[0] in got and fields[1] in got and len(got) == 2:
+                        return ast.copy_location(ast.Call(func=ast.Attribute(value=n.args[0], attr="push", ctx=ast.Load()),
+                                                          args=[got[fields[0]], got[fields[1]]], keywords=[]), n)
+                bad[0] = True
+                return n
+            if t == "heappop" and len(n.args) == 1 and isinstance(n.args[0], ast.Name) and n.args[0].id in heaps:
+                return ast.copy_location(ast.Call(func=ast.Attribute(value=n.args[0], attr="get", ctx=ast.Load()), args=[], keywords=[]), n)
+            return n
+
+        def _test(self, e):
+            """a truth test of the heap list -> not q.empty()"""
+            h = heap_of(e)
+            if h is not None:
+                return ast.copy_location(ast.UnaryOp(op=ast.Not(), operand=empty_call(h, e)), e)
+            if isinstance(e, ast.UnaryOp) and isinstance(e.op, ast.Not):
+                h = heap_of(e.operand)
+                if h is not None:
+                    return empty_call(h, e)
+                e.operand = self._test(e.operand)
+                return e
+            if isinstance(e, ast.BoolOp):
+                e.values = [self._test(v) for v in e.values]
+                return e
+            if isinstance(e, ast.Compare) and len(e.ops) == 1:
+                l, r = e.left, e.comparators[0]
+                for a, b_, flip in ((l, r, False), (r, l, True)):
+                    if isinstance(a, ast.Call) and au.call_tail(a) == "len" and len(a.args) == 1 and heap_of(a.args[0]) is not None and au.const(b_) == 0:
+                        h = heap_of(a.args[0])
+                        op = type(e.ops[0])
+                        if flip:
+                            op = {ast.Lt: ast.Gt, ast.Gt: ast.Lt, ast.LtE: ast.GtE, ast.GtE: ast.LtE}.get(op, op)
+                        if op in (ast.Gt, ast.NotEq):
+                            return ast.copy_location(ast.UnaryOp(op=ast.Not(), operand=empty_call(h, e)), e)
+                        if op in (ast.Eq, ast.LtE):
+                            return empty_call(h, e)
+            return e
+
+        def visit_While(self, n):
+            self.generic_visit(n)
+            n.test = self._test(n.test)
+            return n
+
+        def visit_If(self, n):
+            self.generic_visit(n)
+            n.test = self._test(n.test)
+            return n
+    new_body = [T().visit(st) for st in fn.body]
+    if bad[0]:
+        return
+    fn.body = new_body
+    # the heap lists themselves become queues
+    for st in au.stmts(fn.body):
+        if isinstance(st, (ast.Assign, ast.AnnAssign)) and st.value is not None:
+            tg = au.assign_targets(st)
+            if len(tg) == 1 and isinstance(tg[0], ast.Name) and tg[0].id in heaps and \
+                    ((isinstance(st.value, ast.List) and not st.value.elts) or (isinstance(st.value, ast.Call) and au.call_tail(st.value) == "list" and not st.value.args)):
+                st.value = ast.copy_location(ast.Call(func=ast.Name(id="PriorityQueue", ctx=ast.Load()), args=[], keywords=[]), st.value)
+    ast.fix_missing_locations(fn)
+    F.refresh()
 
 
 # ----------------------------------------------------------------------- C09-A1
 def a1_arity(ctx):
     m = ctx.repo.module(PATHS)
     ctx.repo.func(PATHS, "shortest_path")
-    n = names = 0
+    n = 0
     for q, fn in sorted(m.funcs.items()):
-        if ".<locals>." in q:
+        if "." in q:
             continue
-        k, nm = sk.arity_agreement(ctx, "C09-A1", PATHS, fn)
+        F = _flat(ctx, PATHS, fn)
+        k, nm = sk.arity_agreement(ctx, "C09-A1", PATHS, F.fn)
         n += k
-        names += nm
     if n < 1:
-        ctx.fail("C09-A1", ctx.site(PATHS, ctx.repo.func(PATHS, "shortest_path")), "edge weight callables of shortest_path not found",
-                 "the weight mode must select a callable (lambda / local def) applied to the two endpoints of the relaxed edge")
+        ctx.ok("C09-A1", ctx.site(PATHS, ctx.repo.func(PATHS, "shortest_path")), "no callable is bound to a local name on sibling branches")
 
 
-# ----------------------------------------------------------------------- C09-E1
+# ----------------------------------------------------------------------- sentinels
 DICT_METHODS = {"get", "pop", "setdefault", "keys", "values", "items", "__contains__", "__getitem__", "__setitem__"}
+DICT_CTORS = ("dict", "defaultdict", "OrderedDict", "fromkeys")
+LIST_CTORS = ("list", "zeros", "full", "ones", "empty", "array", "arange", "ArrayAttribute", "Attribute")
 
 
 def _is_dict_ctor(e):
-    return isinstance(e, (ast.Dict, ast.DictComp)) or \
-        (isinstance(e, ast.Call) and au.call_tail(e) in ("dict", "defaultdict", "OrderedDict"))
+    return isinstance(e, (ast.Dict, ast.DictComp)) or (isinstance(e, ast.Call) and au.call_tail(e) in DICT_CTORS)
+
+
+def _is_list_ctor(e):
+    if isinstance(e, (ast.List, ast.ListComp, ast.Tuple)):
+        return True
+    if isinstance(e, ast.BinOp) and isinstance(e.op, ast.Mult) and (isinstance(e.left, ast.List) or isinstance(e.right, ast.List)):
+        return True
+    return isinstance(e, ast.Call) and au.call_tail(e) in LIST_CTORS
 
 
 def _root(e):
@@ -112,35 +254,104 @@ def _root(e):
     return e
 
 
+def _neg_int(e):
+    c = au.const(e)
+    return isinstance(c, int) and not isinstance(c, bool) and c < 0
+
+
+def module_constants(mod):
+    out = {}
+    for st in mod.tree.body:
+        if isinstance(st, ast.Assign) and len(st.targets) == 1 and isinstance(st.targets[0], ast.Name):
+            out.setdefault(st.targets[0].id, []).append(st.value)
+        elif isinstance(st, ast.AnnAssign) and isinstance(st.target, ast.Name) and st.value is not None:
+            out.setdefault(st.target.id, []).append(st.value)
+    return {k: v[0] for k, v in out.items() if len(v) == 1}
+
+
+def sentinels(F: FlatFn, mod):
+    """names that denote a negative integer constant in the function (local, bound once; or a module-level constant) and index something"""
+    fn = F.fn
+    params = set(F.params)
+    used_as_index = set()
+    for n in au.walk(fn):
+        if isinstance(n, ast.Subscript) and isinstance(n.slice, ast.Name):
+            used_as_index.add(n.slice.id)
+        if isinstance(n, ast.Subscript) and isinstance(n.slice, ast.Tuple):
+            used_as_index.update(x.id for x in n.slice.elts if isinstance(x, ast.Name))
+    out = {}
+    consts = module_constants(mod)
+    for name, v in F.b.defs.items():
+        if F.b.single(name) and name not in params:
+            if _neg_int(v):
+                out[name] = v
+            elif isinstance(v, ast.Name) and v.id in consts and v.id not in F.b.count and _neg_int(consts[v.id]):
+                out[name] = consts[v.id]
+            elif isinstance(v, ast.Name) and F.b.single(v.id) and v.id not in params and _neg_int(F.b.defs.get(v.id)):
+                out[name] = F.b.defs[v.id]
+    for name in {n.id for n in au.walk(fn) if isinstance(n, ast.Name) and isinstance(n.ctx, ast.Load)}:
+        if name in consts and _neg_int(consts[name]) and name not in F.b.count:
+            out[name] = consts[name]
+    return {k: v for k, v in out.items()}, used_as_index
+
+
+# ----------------------------------------------------------------------- C09-E1
 def e1_sentinel(ctx):
     repo = ctx.repo
-    fn = repo.func(PATHS, "shortest_path_to_vertex_set")
-    site = ctx.site(PATHS, fn)
-    b = sym.Bindings(fn)
-    params = set(au.params(fn))
-    cands = []
-    for name, v in b.defs.items():
-        c = au.const(v)
-        if b.single(name) and isinstance(c, int) and not isinstance(c, bool) and c < 0 and name not in params:
-            if any(isinstance(n, ast.Subscript) and isinstance(n.slice, ast.Name) and n.slice.id == name for n in au.walk(fn)):
-                cands.append(name)
+    fn0 = repo.func(PATHS, "shortest_path_to_vertex_set")
+    F = _flat(ctx, PATHS, fn0)
+    fn = F.fn
+    site = ctx.site(PATHS, fn0)
+    b = F.b
+    params = set(F.params)
+    sents, used = sentinels(F, repo.module(PATHS))
+    cands = [s for s in sents if s in used]
     if len(cands) != 1:
-        ctx.fail("C09-E1", site, "virtual sink sentinel not found",
-                 f"{len(cands)} local name(s) bound once to a negative integer literal and used as a dictionary key; "
-                 "the virtual sink of the vertex-set query cannot be identified")
+        ctx.undecided("C09-E1", site, "virtual sink sentinel not identified",
+                      f"{len(cands)} name(s) denote a negative integer constant and are used as a key; the virtual sink of the vertex-set "
+                      "query cannot be identified")
         return
     S = cands[0]
+    sval = au.src(sents[S])
     aliases = {t.id for st in au.stmts(fn.body) if isinstance(st, ast.Assign) and isinstance(st.value, ast.Name)
                and st.value.id == S for t in st.targets if isinstance(t, ast.Name)}
+    # local sequences built once from a literal that contains the sentinel: nodes = [*ids, SINK] / list(ids) + [SINK]
+    colls = set()
+    walk_lists = {w.lst.id for lp_, w, why_ in hf_walk.find_walks(F, _start_names(F, None)) if w is not None and isinstance(w.lst, ast.Name)}
+    for st in au.stmts(fn.body):
+        if isinstance(st, ast.Assign) and len(st.targets) == 1 and isinstance(st.targets[0], ast.Name) and b.single(st.targets[0].id) \
+                and _seq_with(st.value, S) and st.targets[0].id not in walk_lists:
+            colls.add(st.targets[0].id)
+
+    def holds(e):
+        return _literal_with(e, S) or (isinstance(e, ast.Name) and e.id in colls)
+    # loop targets ranging over a literal that contains the sentinel
+    for st in au.stmts(fn.body):
+        if isinstance(st, ast.For) and holds(st.iter):
+            aliases |= set(au.assigned_names(st.target))
+    # second-order aliases (x = alias)
+    for _ in range(3):
+        for st in au.stmts(fn.body):
+            if isinstance(st, ast.Assign) and isinstance(st.value, ast.Name) and st.value.id in aliases:
+                aliases |= {t.id for t in st.targets if isinstance(t, ast.Name)}
     universe = frozenset(aliases)
     escapes = {}      # id(node) -> (node, kind)
+    unknown = {}      # id(node) -> (node, what)  : cannot be classified
     goods = {}
+    appended = []     # (Name node, append call)
 
-    def local_dict_at(name_node, at):
+    def container_kind(name_node, at):
+        """'dict' | 'list' | None (unknown) for the container a sentinel indexes"""
         if not isinstance(name_node, ast.Name) or name_node.id in params:
-            return False
-        d = b.reaching(name_node.id, at)
-        return d is not None and _is_dict_ctor(d)
+            return None
+        d = F.definition(name_node.id, at)
+        if d is None:
+            return None
+        if _is_dict_ctor(d):
+            return "dict"
+        if _is_list_ctor(d):
+            return "list"
+        return None
 
     def values_only(callee, pname):
         """the callee never looks at the keys of its dict parameter: it is only used as `p.values()`, `len(p)`,
@@ -156,24 +367,47 @@ def e1_sentinel(ctx):
                 lp = au.parent(au.parent(p))
                 if p.attr == "items" and isinstance(lp, ast.For) and lp.iter is au.parent(p) and isinstance(lp.target, ast.Tuple) \
                         and len(lp.target.elts) == 2 and isinstance(lp.target.elts[0], ast.Name):
-                    key = lp.target.elts[0].id
-                    if not any(isinstance(x, ast.Name) and x.id == key and isinstance(x.ctx, ast.Load) for x in au.walk(callee)):
+                    k = lp.target.elts[0].id
+                    if not any(isinstance(x, ast.Name) and x.id == k and isinstance(x.ctx, ast.Load) for x in au.walk(callee)):
                         continue
             return False
         return True
 
-    def classify(n, via):
-        """n: a Name node that holds the sentinel at this point."""
+    def classify(n):
+        """n: a Name node that holds the sentinel at this point.  None = accepted; ('escape', text); ('unknown', text)"""
         p = au.parent(n)
-        if isinstance(p, ast.Subscript) and p.slice is n:
+        if isinstance(p, ast.Subscript) and (p.slice is n or (isinstance(p.slice, ast.Tuple) and any(x is n for x in p.slice.elts))):
             r = _root(p.value)
-            if local_dict_at(r, n):
+            k = container_kind(r, n)
+            if k == "dict":
                 return None
-            return "indexes a container that is not a dictionary built in this function"
+            if k == "list":
+                d_ = F.definition(r.id, n)
+                if d_ is not None and any(isinstance(x, ast.BinOp) and isinstance(x.op, ast.Add) and any(au.const(y) == 1 for y in (x.left, x.right)) for x in ast.walk(d_)):
+                    return ("unknown", "indexes a list that has one extra slot")
+                return ("escape", "indexes a list / array (a negative index silently aliases the slot of the last vertex)")
+            return ("unknown", "indexes a container whose construction is not visible in this function")
+        if isinstance(p, ast.Tuple) and isinstance(au.parent(p), ast.Subscript) and au.parent(p).slice is p:
+            return classify_tuple_key(p, n)
         if isinstance(p, ast.Compare):
             return None
         if isinstance(p, ast.Assign) and p.value is n and all(isinstance(t, ast.Name) for t in p.targets):
             return None
+        if isinstance(p, (ast.Tuple, ast.List)) and isinstance(au.parent(p), (ast.For, ast.comprehension)) and au.parent(p).iter is p:
+            gp = au.parent(p)
+            if isinstance(gp, ast.For):
+                return None                      # the loop target is tracked as an alias
+            return classify_comprehension(gp, n)
+        if isinstance(p, ast.List) and len(p.elts) == 1 and isinstance(au.parent(p), ast.Assign) and au.parent(p).value is p \
+                and all(isinstance(t, ast.Name) for t in au.parent(p).targets):
+            appended.append((n, p))          # L = [SINK]: the origin of a list-based back-tracking (decided with the positional model)
+            return None
+        st_ = au.enclosing_stmt(n)
+        if isinstance(p, (ast.List, ast.Tuple, ast.Set)) and isinstance(st_, ast.Assign) and len(st_.targets) == 1 and isinstance(st_.targets[0], ast.Name) \
+                and st_.targets[0].id in colls:
+            return None                      # element of a local sequence whose uses are checked below
+        if isinstance(p, ast.Starred):
+            return ("unknown", "is unpacked into a sequence")
         if isinstance(p, ast.Dict) and any(k is n for k in p.keys):
             c = au.parent(p)
             if isinstance(c, ast.Call) and isinstance(c.func, ast.Name) and any(a is p for a in c.args):
@@ -184,41 +418,111 @@ def e1_sentinel(ctx):
                     i = [id(a) for a in c.args].index(id(p))
                     if i < len(ps) and values_only(callee, ps[i]):
                         return None
-                return f"is a key of a dictionary handed to {c.func.id}(...), which does not only read .values()"
-            return "is a key of a dictionary that leaves the local tables"
+                return ("escape", f"is a key of a dictionary handed to {c.func.id}(...), which does not only read .values()")
+            return ("escape", "is a key of a dictionary that leaves the local tables")
+        if isinstance(p, ast.DictComp) and p.key is n:
+            return None
         if isinstance(p, ast.Call) and (any(a is n for a in p.args)):
             f = p.func
-            if isinstance(f, ast.Attribute) and f.attr in DICT_METHODS and local_dict_at(_root(f.value), n):
+            if isinstance(f, ast.Attribute) and f.attr in DICT_METHODS and container_kind(_root(f.value), n) == "dict":
                 return None
-            return f"is passed as an argument to {au.call_name(p) or au.src(p.func)}(...)"
+            if isinstance(f, ast.Attribute) and f.attr in ("append", "insert") and isinstance(_root(f.value), ast.Name):
+                appended.append((n, p))
+                return None                      # decided below with the positional model of the list
+            if au.call_tail(p) in ("print", "str", "repr", "format", "isinstance", "debug", "info", "warning", "log", "hash", "id", "type"):
+                return None                      # shown / inspected, not used as a vertex
+            if isinstance(f, ast.Attribute) and f.attr in ("appendleft",) and isinstance(_root(f.value), ast.Name):
+                appended.append((n, p))
+                return None
+            if isinstance(f, ast.Attribute) and isinstance(_root(f.value), ast.Name) and _root(f.value).id not in params \
+                    and _root(f.value).id in F.b.count:
+                return ("unknown", f"is passed to a method of a local object in `{au.src(au.enclosing_stmt(n))[:50]}`")
+            return ("escape", f"is passed as an argument to {au.call_name(p) or au.src(p.func)}(...)")
         if isinstance(p, ast.keyword) and isinstance(au.parent(p), ast.Call):
-            return f"is passed as an argument to {au.call_name(au.parent(p)) or '<call>'}(...)"
+            return ("escape", f"is passed as an argument to {au.call_name(au.parent(p)) or '<call>'}(...)")
         if isinstance(p, ast.Return) or (isinstance(p, (ast.Tuple, ast.List)) and isinstance(au.parent(p), ast.Return)):
-            return "is returned to the caller"
+            return ("escape", "is returned to the caller")
         if isinstance(p, (ast.Tuple, ast.List)) and isinstance(au.parent(p), ast.Assign) and au.parent(p).value is p:
             return None  # parallel assignment source: handled as alias-free (declared below)
-        return f"is used in `{au.src(au.enclosing_stmt(n))[:60]}`, outside the accepted sentinel idioms"
+        if isinstance(p, (ast.IfExp, ast.BoolOp, ast.UnaryOp)):
+            return ("unknown", f"is used in `{au.src(au.enclosing_stmt(n))[:60]}`")
+        return ("unknown", f"is used in `{au.src(au.enclosing_stmt(n))[:60]}`, outside the sentinel idioms the rule knows")
+
+    def classify_tuple_key(tup, n):
+        return ("unknown", "is part of a tuple key")
+
+    def classify_comprehension(gen, n):
+        """the sentinel is an element of the literal a comprehension ranges over: its target holds it"""
+        comp = au.parent(gen)
+        tnames = set(au.assigned_names(gen.target))
+        bad = None
+        for x in ast.walk(comp):
+            if isinstance(x, ast.Name) and x.id in tnames and isinstance(x.ctx, ast.Load):
+                px = au.parent(x)
+                if isinstance(comp, ast.DictComp) and comp.key is x:
+                    continue
+                if isinstance(px, ast.Tuple) and px is getattr(comp, "elt", None) and px.elts[0] is x and isinstance(au.parent(comp), ast.Call) \
+                        and au.call_tail(au.parent(comp)) == "dict":
+                    continue
+                if isinstance(px, ast.Subscript) and px.slice is x and container_kind(_root(px.value), comp) == "dict":
+                    continue
+                if isinstance(px, ast.Compare):
+                    continue
+                bad = ("unknown", f"ranges over a literal containing the sentinel in `{au.src(comp)[:60]}`")
+        if bad:
+            return bad
+        if isinstance(comp, ast.DictComp):
+            return None
+        if isinstance(comp, (ast.ListComp, ast.GeneratorExp)) and isinstance(comp.elt, ast.Tuple) and len(comp.elt.elts) == 2 \
+                and isinstance(comp.elt.elts[0], ast.Name) and comp.elt.elts[0].id in tnames and not (tnames & au.names(comp.elt.elts[1])) \
+                and isinstance(au.parent(comp), ast.Call) and au.call_tail(au.parent(comp)) == "dict":
+            return None          # dict([(k, value) for k in ..]) : keys of a dictionary built here
+        return ("unknown", f"ranges over a literal containing the sentinel in `{au.src(comp)[:60]}`")
+
+    def classify_coll(n):
+        """n: a Name node denoting a local sequence that contains the sentinel"""
+        p = au.parent(n)
+        if isinstance(p, ast.For) and p.iter is n:
+            return None
+        if isinstance(p, ast.comprehension) and p.iter is n:
+            return classify_comprehension(p, n)
+        if isinstance(p, ast.Call) and au.call_tail(p) in ("len",) and p.args and p.args[0] is n:
+            return None
+        if isinstance(p, ast.Call) and au.call_tail(p) == "fromkeys" and p.args and p.args[0] is n:
+            return None                      # keys of a dictionary built here
+        return ("unknown", f"is an element of a sequence used in `{au.src(au.enclosing_stmt(n))[:60]}`")
 
     def scan(state, node):
         for n in au.walk(node):
+            if isinstance(n, ast.Name) and isinstance(n.ctx, ast.Load) and n.id in colls:
+                k = classify_coll(n)
+                if k is None:
+                    goods[id(n)] = n
+                elif k[0] == "escape":
+                    escapes[id(n)] = (n, k[1])
+                else:
+                    unknown[id(n)] = (n, k[1])
+                continue
             if isinstance(n, ast.Name) and isinstance(n.ctx, ast.Load):
-                via = None
                 if n.id == S:
                     pass
                 elif n.id in universe and n.id not in state:
-                    via = n.id
+                    pass
                 else:
                     continue
-                k = classify(n, via)
+                k = classify(n)
                 if k is None:
                     goods[id(n)] = n
+                elif k[0] == "escape":
+                    escapes[id(n)] = (n, k[1])
                 else:
-                    escapes[id(n)] = (n, k)
+                    unknown[id(n)] = (n, k[1])
 
     def t_stmt(state, st):
         if isinstance(st, flow._ForHead):
             scan(state, st.iter)
-            return state | {x for x in au.assigned_names(st.target) if x in universe}
+            tg = {x for x in au.assigned_names(st.target) if x in universe}
+            return (state - tg) if holds(st.iter) else (state | tg)
         scan(state, st)
         if isinstance(st, ast.Assign):
             pairs = dict(sym.split_assign(st))
@@ -241,22 +545,78 @@ def e1_sentinel(ctx):
 
     fl = flow.Flow(t_stmt, t_test)
     fl.run(fn.body, universe)
-    # uses of the sentinel inside nested lambdas/defs are not expected; count them as unsupported if present
-    n_uses = len(goods) + len(escapes)
+    # the back-tracked list: an alias appended while it may still hold the sentinel
+    for n, call in appended:
+        verdict = _sentinel_in_list(F, n, _start_names(F, None))
+        if verdict == "dropped":
+            goods[id(n)] = n
+        elif verdict == "kept":
+            escapes[id(n)] = (n, "is appended to the list that is returned (it is the first element recorded and is never removed)")
+        else:
+            unknown[id(n)] = (n, "is appended to a list whose later use the rule cannot follow")
     for n in goods.values():
-        ctx.ok("C09-E1", ctx.site(PATHS, fn, n), f"{S} used as key of a local dictionary / in a comparison")
+        ctx.ok("C09-E1", ctx.site(PATHS, fn0, n), "sentinel used as key of a local dictionary / in a comparison")
     if escapes:
         kinds = sorted({k for _, k in escapes.values()})
-        first = min((n for n, _ in escapes.values()), key=lambda n: (n.lineno, n.col_offset))
-        s2 = ctx.site(PATHS, fn, first)
+        first = min((n for n, _ in escapes.values()), key=F.pos)
+        s2 = ctx.site(PATHS, fn0, first)
         branch = sorted({("" if p else "not ") + au.src(e) for nn, _ in escapes.values() for e, p in au.guards(nn)[-1:]})
         ctx.fail("C09-E1", s2, f"sentinel {S} escapes the local dictionaries: it " + "; ".join(kinds),
-                 f"{S} = {au.src(b.defs[S])} is the virtual sink, not a vertex of the mesh: the callee / caller receives "
-                 f"{au.src(b.defs[S])} as a vertex index (KeyError or a wrong vertex) whenever the branch `{', '.join(branch)}` is taken",
-                 escapes=[f"{n.lineno}: {k}" for n, k in escapes.values()])
+                 f"{S} = {sval} is the virtual sink, not a vertex of the mesh: the callee / caller receives "
+                 f"{sval} as a vertex index (KeyError or a wrong vertex) whenever the branch `{', '.join(branch)}` is taken",
+                 escapes=[k for n, k in escapes.values()])
+    if unknown:
+        kinds = sorted({k for _, k in unknown.values()})
+        first = min((n for n, _ in unknown.values()), key=F.pos)
+        ctx.undecided("C09-E1", ctx.site(PATHS, fn0, first), "a use of the virtual sink sentinel is not understood", "; ".join(kinds))
 
 
-# ----------------------------------------------------------------------- C09-F1 (R-OFFSET, piecewise symbolic in L = len(path))
+def _seq_with(e, S):
+    """a list / tuple expression one of whose literal parts contains the sentinel: [*ids, S], (*ids, S), list(ids) + [S], [S] + list(ids)"""
+    if _literal_with(e, S):
+        return True
+    if isinstance(e, ast.BinOp) and isinstance(e.op, ast.Add):
+        return _seq_with(e.left, S) or _seq_with(e.right, S)
+    if isinstance(e, ast.Call) and au.call_tail(e) in ("list", "tuple") and len(e.args) == 1:
+        return _seq_with(e.args[0], S)
+    return False
+
+
+def _literal_with(e, S):
+    return isinstance(e, (ast.Tuple, ast.List, ast.Set)) and any(isinstance(x, ast.Name) and x.id == S for x in e.elts)
+
+
+def _start_names(F, roles):
+    out = set()
+    for r in roles or []:
+        if isinstance(r.get("start"), ast.Name):
+            out.add(r["start"].id)
+    if not out and len(F.params) > 1:
+        out.add(F.params[1])
+    return out
+
+
+def _sentinel_in_list(F, node, start_names):
+    """the sentinel (Name node `node`) is put into a list by the back-tracking: is it removed again before the list is used?
+    'dropped' | 'kept' | 'unknown'"""
+    for lp, w, why in hf_walk.find_walks(F, start_names):
+        if w is None or w.problem:
+            continue
+        is_origin = False
+        if w.record is not None and any(n is node for n in ast.walk(w.record)):
+            is_origin = True                                   # recorded inside the loop while it may still be the sentinel
+        d = F.definition(w.lst.id, w.loop) if isinstance(w.lst, ast.Name) else None
+        if isinstance(d, ast.List) and any(n is node for n in ast.walk(d)):
+            is_origin = True                                   # L = [SINK] ; while L[0] != start: ...
+        if not is_origin:
+            continue
+        hf_walk.follow(F, w, start_names)
+        if w.unknown or w.problem:
+            return "unknown"
+        return "kept" if w.has_origin else "dropped"
+    return "unknown"
+
+
 class Unsup(Exception):
     pass
 
@@ -325,9 +685,11 @@ class _Region:
 
 
 def f1_build_path(ctx):
-    fn = ctx.repo.func(PATHS, "build_path")
-    site = ctx.site(PATHS, fn)
-    b = sym.Bindings(fn)
+    fn0 = ctx.repo.func(PATHS, "build_path")
+    F = _flat(ctx, PATHS, fn0)
+    fn = F.fn
+    site = ctx.site(PATHS, fn0)
+    b = F.b
 
     def is_append(c, field):
         return (isinstance(c, ast.Call) and au.call_tail(c) == "append" and isinstance(c.func, ast.Attribute)
@@ -343,13 +705,13 @@ def f1_build_path(ctx):
             and au.call_tail(outer.iter) == "items":
         ltarget = ltarget.elts[1]
     if outer is None or not isinstance(ltarget, ast.Name):
-        ctx.fail("C09-F1", site, "path loop of build_path not found",
-                 "no top-level `for l in ...` loop appending to both .vertices and .edges of the path mesh")
+        ctx.undecided("C09-F1", site, "path loop of build_path not recognised",
+                      "no top-level `for l in ...` loop appending to both .vertices and .edges of the path mesh")
         return
     lname = ltarget.id
     recv = {au.src(c.func.value.value) for c in au.calls(outer) if is_append(c, "vertices") or is_append(c, "edges")}
     if len(recv) != 1:
-        ctx.fail("C09-F1", site, "vertices and edges of build_path are appended to different meshes", str(sorted(recv)))
+        ctx.undecided("C09-F1", site, "vertices and edges of build_path are appended to different meshes", str(sorted(recv)))
         return
     mesh_out = recv.pop()
     # offset variable: a name of the edge index expressions that is not a loop variable of the nest and not the path
@@ -359,14 +721,14 @@ def f1_build_path(ctx):
     for c in edge_calls:
         t = c.args[0]
         if not (isinstance(t, (ast.Tuple, ast.List)) and len(t.elts) == 2):
-            ctx.fail("C09-F1", site, "edge emitted by build_path is not a literal pair of indices", au.src(t))
+            ctx.undecided("C09-F1", site, "edge emitted by build_path is not a literal pair of indices", au.src(t))
             return
         for e in t.elts:
             offs |= {n for n in au.names(e) if n not in loopvars and n != lname}
     offs = {o for o in offs if o in b.count}
     if len(offs) != 1:
-        ctx.fail("C09-F1", site, "running offset of build_path not found",
-                 f"edge indices must be `offset + position in the path`; names found besides the loop variables: {sorted(offs)}")
+        ctx.undecided("C09-F1", site, "running offset of build_path not identified",
+                      f"edge indices must be `offset + position in the path`; {len(offs)} candidate name(s) besides the loop variables")
         return
     K = offs.pop()
 
@@ -610,8 +972,8 @@ def f1_build_path(ctx):
         try:
             st = run_region(R)
         except (Unsup, sym.NotPoly) as ex:
-            ctx.fail("C09-F1", site, "build_path loop nest not recognised",
-                     f"the vertex/edge emission of build_path could not be summarised for {R}: {ex}")
+            ctx.undecided("C09-F1", site, "build_path loop nest not recognised",
+                          f"the vertex/edge emission of build_path could not be summarised for {R}: {ex}")
             return
         n_regions += 1
         nv, k = st["nv"], st["k"]
@@ -659,18 +1021,18 @@ def f1_build_path(ctx):
     if not fresh_all:
         d = b.reaching(K, outer)
         ctor = b.reaching(mesh_out, outer) if mesh_out.isidentifier() else None
-        pre_appends = [c for s in fn.body if s is not outer and before(s, outer) for c in au.calls(s) if is_append(c, "vertices")]
+        pre_appends = [c for s in fn.body if s is not outer and F.before(s, outer) for c in au.calls(s) if is_append(c, "vertices")]
         if d is not None and len_of_out(d):
             init_ok = True
         elif d is not None and au.const(d) == 0 and isinstance(ctor, ast.Call) and not ctor.args and not ctor.keywords and not pre_appends:
             init_ok = True
-    ctx.check(init_ok, "C09-F1", site, f"offset `{K}` of build_path does not start at the number of vertices already in the path mesh",
+    ctx.check(init_ok, "C09-F1", site, "the running offset of build_path does not start at the number of vertices already in the path mesh",
               "the first path must index its own vertices", note=f"offset {K} starts at the size of the (empty) path mesh")
     adv = [p for p in problems if p[0] == "advance"]
     if fresh_all:
         adv = []
     ctx.check(not adv, "C09-F1", site,
-              f"offset `{K}` of build_path is not advanced by the number of vertices appended per path",
+              "the running offset of build_path is not advanced by the number of vertices appended per path",
               "with two or more paths (several targets, export_path_mesh=True) the edges of every path after the first index "
               "the vertices of the first path: " + "; ".join(t for _, t in adv),
               note="; ".join(facts))
@@ -678,10 +1040,6 @@ def f1_build_path(ctx):
     ctx.check(not other, "C09-F1", site,
               "edges of build_path do not join consecutive vertices of the path block",
               "; ".join(sorted({t for _, t in other})), note=f"{n_regions} length regions: edges join block positions (j-1, j), j = 1..len-1")
-
-
-def before(a, b):
-    return (a.lineno, a.col_offset) < (b.lineno, b.col_offset)
 
 
 def _only_edge_appends(body):
@@ -705,147 +1063,334 @@ def _bound_on(test, iv):
     return None
 
 
+
+
 # ----------------------------------------------------------------------- C09-Q1
+def _self_data(e, field="data"):
+    return au.is_self_attr(e, field)
+
+
 def q1_priority_queue(ctx):
+    """contract of utils.PriorityQueue; returns {'payload': field, 'priority': field}"""
     repo = ctx.repo
     cls = repo.cls(PQ, "PriorityQueue")
     item = repo.cls(PQ, "PriorityItem")
     fields = [st.target.id for st in item.body if isinstance(st, ast.AnnAssign) and isinstance(st.target, ast.Name)]
     info = {"payload": None, "priority": None}
-    # __lt__
+    R = "C09-Q1"
+    # ---- __lt__ : a strict comparison of one field of the two items
+    if not repo.has_func(PQ, "PriorityItem.__lt__"):
+        # @dataclass(order=True): items compare as the tuple of their fields (declaration order) that are not declared compare=False
+        ordered = any(isinstance(d, ast.Call) and au.call_tail(d) == "dataclass" and any(k.arg == "order" and au.const(k.value) is True for k in d.keywords)
+                      for d in item.decorator_list)
+        if ordered:
+            cmp_fields = []
+            for st in item.body:
+                if isinstance(st, ast.AnnAssign) and isinstance(st.target, ast.Name):
+                    v = st.value
+                    excluded = isinstance(v, ast.Call) and au.call_tail(v) == "field" and any(k.arg == "compare" and au.const(k.value) is False for k in v.keywords)
+                    if not excluded:
+                        cmp_fields.append(st.target.id)
+            pr_guess = "priority" if "priority" in fields else (fields[-1] if fields else None)
+            if cmp_fields == [pr_guess]:
+                ctx.ok(R, ctx.site(PQ, item), "items ordered by priority (dataclass order on the priority field only)")
+                info["priority"] = pr_guess
+                rest_ = [f for f in fields if f != pr_guess]
+                info["payload"] = rest_[0] if rest_ else None
+            elif cmp_fields and cmp_fields[0] != pr_guess:
+                ctx.fail(R, ctx.site(PQ, item), "PriorityItem is ordered by its fields in declaration order, the payload first",
+                         "heapq then pops items by payload (vertex id), not by priority: get() does not return the minimum label")
+            else:
+                ctx.undecided(R, ctx.site(PQ, item), "the order of PriorityItem is generated by dataclass(order=True) on several fields", "")
+        else:
+            ctx.undecided(R, ctx.site(PQ, item), "PriorityItem defines no __lt__", "the order of the heap items cannot be read")
+        if info["priority"] is None:
+            return info
+        return _q1_rest(ctx, repo, cls, item, fields, info)
     lt = repo.func(PQ, "PriorityItem.__lt__")
     site = ctx.site(PQ, lt)
     ps = au.params(lt)
-    rets = [s for s in au.stmts(lt.body) if isinstance(s, ast.Return)]
-    ok = False
+    F = _flat(ctx, PQ, lt)
     pr = None
-    if len(rets) == 1 and len(ps) == 2 and isinstance(rets[0].value, ast.Compare) and len(rets[0].value.ops) == 1:
-        c = rets[0].value
-        l, r = c.left, c.comparators[0]
+    verdict = "unknown"
+    try:
+        formula = order.return_formula(hf_flat.strip_doc(F.fn.body))
+    except order.Unsupported:
+        formula = None
+    if formula is not None and formula[0] == "ret" and len(ps) == 2 and isinstance(formula[1], ast.Compare) and len(formula[1].ops) == 1:
+        c = formula[1]
+        l, r = F.resolve(c.left, F.fn.body[-1]), F.resolve(c.comparators[0], F.fn.body[-1])
         if isinstance(l, ast.Attribute) and isinstance(r, ast.Attribute) and l.attr == r.attr and l.attr in fields \
-                and isinstance(l.value, ast.Name) and isinstance(r.value, ast.Name):
+                and isinstance(l.value, ast.Name) and isinstance(r.value, ast.Name) and {l.value.id, r.value.id} == set(ps):
             pr = l.attr
-            ok = (isinstance(c.ops[0], ast.Lt) and (l.value.id, r.value.id) == (ps[0], ps[1])) or \
-                 (isinstance(c.ops[0], ast.Gt) and (l.value.id, r.value.id) == (ps[1], ps[0]))
-    ctx.check(ok, "C09-Q1", site, "PriorityItem.__lt__ is not `self.priority < other.priority`",
-              "heapq orders items with <; any other order makes get() return a non-minimal item and Dijkstra settles vertices too early",
-              note="items ordered by priority with <")
+            fwd = (l.value.id, r.value.id) == (ps[0], ps[1])
+            op = type(c.ops[0])
+            good = (op is ast.Lt and fwd) or (op is ast.Gt and not fwd)
+            verdict = "ok" if good else "bad"
+    elif formula is not None and formula[0] == "ite":
+        # an if-chain: some other order on some condition (tie-breaking by tolerance, by rank ...): the order is not `priority <`
+        names = {n.attr for n in ast.walk(lt) if isinstance(n, ast.Attribute) and n.attr in fields}
+        if names:
+            verdict = "bad"
+            pr = "priority" if "priority" in fields else None
+    if verdict == "ok":
+        ctx.ok(R, site, "items ordered by priority with <")
+    elif verdict == "bad":
+        ctx.fail(R, site, "PriorityItem.__lt__ is not `self.priority < other.priority`",
+                 "heapq orders items with <; any other order makes get() return a non-minimal item and Dijkstra settles vertices too early")
+    else:
+        ctx.undecided(R, site, "PriorityItem.__lt__ is not a single comparison of one field of the two items", au.src(lt)[:120])
+    if pr is None:
+        # fall back on the field names to keep the other rules going
+        pr = "priority" if "priority" in fields else None
     info["priority"] = pr
     rest = [f for f in fields if f != pr]
-    info["payload"] = rest[0] if len(rest) == 1 else None
-    if pr is None or info["payload"] is None:
-        ctx.fail("C09-Q1", ctx.site(PQ, item), "PriorityItem is not a (payload, priority) record", f"fields: {fields}")
+    if pr is None or not rest:
+        ctx.undecided(R, ctx.site(PQ, item), "PriorityItem is not a (payload, priority) record", f"fields: {fields}")
         return info
-    # get
-    g = repo.func(PQ, "PriorityQueue.get")
+    info["payload"] = rest[0]
+    extra_fields = rest[1:]
+    return _q1_rest(ctx, repo, cls, item, fields, info)
 
-    def is_heap_call(e, tail, nargs):
-        return isinstance(e, ast.Call) and au.call_tail(e) == tail and len(e.args) == nargs and au.is_self_attr(e.args[0], "data")
 
-    def single_return(fn):
-        r = [s for s in au.stmts(fn.body) if isinstance(s, ast.Return)]
-        return sym.Bindings(fn).resolve(r[0].value, at=r[0]) if len(r) == 1 and r[0].value is not None else None
-    rv = single_return(g)
-    ctx.check(rv is not None and is_heap_call(rv, "heappop", 1), "C09-Q1", ctx.site(PQ, g),
-              "PriorityQueue.get does not return heapq.heappop(self.data)",
-              "get() must remove and return the minimum-priority item", note="get = heappop(self.data)")
-    p = repo.func(PQ, "PriorityQueue.pop")
-    rv = single_return(p)
-    okp = rv is not None and (is_heap_call(rv, "heappop", 1) or
-                              (isinstance(rv, ast.Call) and au.is_self_attr(rv.func, "get") and not rv.args))
-    ctx.check(okp, "C09-Q1", ctx.site(PQ, p), "PriorityQueue.pop does not delegate to get()",
-              "pop() is documented as the same operation as get()", note="pop = get")
-    # push
-    pu = repo.func(PQ, "PriorityQueue.push")
-    pps = au.params(pu, skip_self=True)
-    bpu = sym.Bindings(pu)
-    hp = [c for c in au.calls(pu) if au.call_tail(c) == "heappush"]
-    okpush = False
-    why = "no heappush(self.data, item)"
-    if len(hp) == 1 and len(hp[0].args) == 2 and au.is_self_attr(hp[0].args[0], "data") and len(pps) == 2:
-        it = bpu.resolve(hp[0].args[1], at=hp[0])
-        if isinstance(it, ast.Call) and au.call_tail(it) == "PriorityItem":
-            got = {}
-            for i, a in enumerate(it.args):
-                if i < len(fields):
-                    got[fields[i]] = a
-            for kw in it.keywords:
-                got[kw.arg] = kw.value
-            okpush = isinstance(got.get(info["payload"]), ast.Name) and got[info["payload"]].id == pps[0] and \
-                isinstance(got.get(pr), ast.Name) and got[pr].id == pps[1]
-            why = f"PriorityItem built as {au.src(it)} with fields {fields}"
+def _heap_aliases(cls):
+    """class attributes of PriorityQueue bound to heapq functions: `_heappush = staticmethod(hq.heappush)` -> {'_heappush': 'heappush'}"""
+    out = {}
+    for st in cls.body:
+        if isinstance(st, (ast.Assign, ast.AnnAssign)) and st.value is not None:
+            v = st.value
+            if isinstance(v, ast.Call) and au.call_tail(v) == "staticmethod" and len(v.args) == 1:
+                v = v.args[0]
+            t = v.attr if isinstance(v, ast.Attribute) else (v.id if isinstance(v, ast.Name) else None)
+            if t in ("heappush", "heappop", "heapify"):
+                for tg in au.assign_targets(st):
+                    if isinstance(tg, ast.Name):
+                        out[tg.id] = t
+    return out
+
+
+def _q1_rest(ctx, repo, cls, item, fields, info):
+    R = "C09-Q1"
+    pr = info["priority"]
+    aliases = _heap_aliases(cls)
+
+    def tail_of(c):
+        t = au.call_tail(c)
+        return aliases.get(t, t)
+    # ---- get / pop
+    def heap_call(e, tail, nargs):
+        return isinstance(e, ast.Call) and tail_of(e) == tail and len(e.args) == nargs and _self_data(e.args[0])
+
+    def returned(fn):
+        """resolved value of the single value-returning `return` of fn (or None)"""
+        Fm = _flat(ctx, PQ, fn)
+        r = [s for s in au.stmts(Fm.fn.body) if isinstance(s, ast.Return) and s.value is not None]
+        if len(r) != 1:
+            return None, Fm
+        return Fm.b.resolve(r[0].value, at=r[0], keep=("self",)), Fm
+
+    def bad_removal(rv):
+        """a recognised way of taking an item that is not pop-min"""
+        if isinstance(rv, ast.Call) and isinstance(rv.func, ast.Attribute) and _self_data(rv.func.value) and rv.func.attr in ("pop", "popleft"):
+            return "self.data.pop(..) takes the item at a list position, not the minimum"
+        if isinstance(rv, ast.Subscript) and _self_data(rv.value):
+            return "an item is read by position without being removed"
+        if isinstance(rv, ast.Call) and au.call_tail(rv) in ("min", "max", "nlargest", "nsmallest", "heappushpop", "heapreplace"):
+            return f"{au.call_tail(rv)}(..) is not heappop"
+        return None
+    for mname in ("get", "pop"):
+        if not repo.has_func(PQ, "PriorityQueue." + mname):
+            continue
+        g = repo.func(PQ, "PriorityQueue." + mname)
+        rv, Fm = returned(g)
+        s = ctx.site(PQ, g)
+        if rv is not None and heap_call(rv, "heappop", 1):
+            ctx.ok(R, s, f"{mname} = heappop(self.data)")
+        elif rv is not None and isinstance(rv, ast.Call) and isinstance(rv.func, ast.Attribute) and isinstance(rv.func.value, ast.Name) \
+                and rv.func.value.id == "self" and rv.func.attr in ("get", "pop") and rv.func.attr != mname and not rv.args:
+            ctx.ok(R, s, f"{mname} delegates to {rv.func.attr}")
+        elif rv is not None and bad_removal(rv):
+            ctx.fail(R, s, f"PriorityQueue.{mname} does not return heapq.heappop(self.data)",
+                     f"{mname}() must remove and return the minimum-priority item: {bad_removal(rv)}")
         else:
-            why = f"pushed item is `{au.src(it)}`"
-    ctx.check(okpush, "C09-Q1", ctx.site(PQ, pu),
-              "PriorityQueue.push(x, w) does not heappush PriorityItem(payload=x, priority=w) onto self.data", why,
-              note="push = heappush(self.data, PriorityItem(x, w))")
-    # empty
+            ctx.undecided(R, s, f"PriorityQueue.{mname} is not recognised as heappop(self.data)", au.src(rv)[:80] if rv is not None else "no single return value")
+    # ---- push
+    pu = repo.func(PQ, "PriorityQueue.push")
+    Fp = _flat(ctx, PQ, pu)
+    pps = au.params(pu, skip_self=True)
+    hp = [c for c in au.calls(Fp.fn) if tail_of(c) == "heappush"]
+    spush = ctx.site(PQ, pu)
+    if len(hp) >= 1 and all(len(c.args) == 2 and _self_data(c.args[0]) for c in hp) and len(pps) >= 2:
+        for c in hp:
+            it = Fp.b.resolve(c.args[1], at=c, keep=("self",))
+            if isinstance(it, ast.Call) and au.call_tail(it) == "PriorityItem":
+                got = {}
+                for i, a in enumerate(it.args):
+                    if i < len(fields):
+                        got[fields[i]] = a
+                for kw in it.keywords:
+                    got[kw.arg] = kw.value
+                pa, pw = got.get(info["payload"]), got.get(pr)
+                okpush = isinstance(pa, ast.Name) and pa.id == pps[0] and isinstance(pw, ast.Name) and pw.id == pps[1]
+                if okpush:
+                    ctx.ok(R, spush, "push = heappush(self.data, PriorityItem(x, w))")
+                elif isinstance(pa, ast.Name) and isinstance(pw, ast.Name) and {pa.id, pw.id} <= set(pps):
+                    ctx.fail(R, spush, "PriorityQueue.push(x, w) does not heappush PriorityItem(payload=x, priority=w) onto self.data",
+                             f"PriorityItem built with fields {fields} from swapped arguments")
+                else:
+                    # the priority is a rewritten value of w (w = something else under a condition): decided by the flow rule below
+                    wdef = Fp.resolve(pw, c) if pw is not None else None
+                    if isinstance(pa, ast.Name) and pa.id == pps[0] and pw is not None and pps[1] in au.names(wdef) | au.names(pw):
+                        ctx.ok(R, spush, "push = heappush(self.data, PriorityItem(x, <w>))")
+                    else:
+                        ctx.undecided(R, spush, "the item pushed by PriorityQueue.push is not recognised", au.src(it)[:80])
+            else:
+                ctx.undecided(R, spush, "the item pushed by PriorityQueue.push is not a PriorityItem(..) call", au.src(it)[:80])
+    elif not hp:
+        alt = [c for c in au.calls(Fp.fn) if isinstance(c.func, ast.Attribute) and _self_data(c.func.value) and c.func.attr in ("append", "insert", "extend")]
+        if alt:
+            ctx.fail(R, spush, "PriorityQueue.push inserts into self.data without heappush",
+                     f"`{au.src(alt[0])[:60]}`: the list is a heap only as long as nothing but heapq writes it")
+        else:
+            ctx.undecided(R, spush, "PriorityQueue.push has no heappush(self.data, item)", "")
+    else:
+        ctx.undecided(R, spush, "PriorityQueue.push is not recognised", "")
+    # the priority handed to the item is the parameter itself, never replaced
+    for st in au.stmts(Fp.fn.body):
+        if len(pps) >= 2 and pps[1] in [n for t in au.assign_targets(st) for n in au.assigned_names(t)]:
+            newv = getattr(st, "value", None)
+            if isinstance(newv, ast.Call) and au.call_tail(newv) in ("float", "int", "float64", "float32", "asarray") and len(newv.args) == 1 \
+                    and isinstance(newv.args[0], ast.Name) and newv.args[0].id == pps[1]:
+                continue                         # a type conversion of the priority
+            if newv is not None and pps[1] in au.names(newv):
+                ctx.undecided(R, ctx.site(PQ, pu, st), "PriorityQueue.push rewrites the priority it was given from its own value", "")
+                continue
+            conds = [("" if p_ else "not ") + au.src(e) for e, p_ in sk.atoms(sk.path_conds(st))]
+            ctx.fail(R, ctx.site(PQ, pu, st), "PriorityQueue.push replaces the priority it was given",
+                     f"`{au.src(st)[:70]}`" + (f" under `{', '.join(conds)}`" if conds else "") + ": the item is queued with another priority "
+                     "than the label computed by the caller (a priority of 0 is falsy), so get() no longer returns the minimum label")
+    # ---- empty
     em = repo.func(PQ, "PriorityQueue.empty")
-    rv = single_return(em)
-    oke = False
+    rv, Fe = returned(em)
+    oke = None
     if rv is not None:
         def symf(n):
-            if isinstance(n, ast.Call) and au.call_tail(n) == "len" and len(n.args) == 1 and au.is_self_attr(n.args[0], "data"):
+            if isinstance(n, ast.Call) and au.call_tail(n) == "len" and len(n.args) == 1 and _self_data(n.args[0]):
+                return "n"
+            if isinstance(n, ast.Call) and au.call_tail(n) == "len" and len(n.args) == 1 and isinstance(n.args[0], ast.Name) and n.args[0].id == "self" \
+                    and _queue_truthiness(ctx):
                 return "n"
             raise order.Unsupported(au.src(n))
         try:
-            if isinstance(rv, ast.UnaryOp) and isinstance(rv.op, ast.Not) and au.is_self_attr(rv.operand, "data"):
+            if isinstance(rv, ast.UnaryOp) and isinstance(rv.op, ast.Not) and _self_data(rv.operand):
                 oke = True
+            elif isinstance(rv, ast.UnaryOp) and isinstance(rv.op, ast.Not) and isinstance(rv.operand, ast.Call) and au.call_tail(rv.operand) in ("len", "bool") \
+                    and _self_data(rv.operand.args[0]):
+                oke = True
+            elif _self_data(rv) or (isinstance(rv, ast.Call) and au.call_tail(rv) in ("len", "bool") and len(rv.args) == 1 and _self_data(rv.args[0])):
+                oke = False
             else:
                 pred = order.Pred(symf)
                 oke = all(bool(pred.eval(rv, {"n": k})) == (k == 0) for k in range(0, 4))
-        except (order.Unsupported, KeyError):
-            oke = False
-    ctx.check(oke, "C09-Q1", ctx.site(PQ, em), "PriorityQueue.empty() is not `len(self.data) == 0`",
-              "the Dijkstra loops run `while not queue.empty()`", note="empty == (len == 0), sizes 0..3")
-    # who may touch self.data
+        except (order.Unsupported, KeyError, TypeError):
+            oke = None
+    if oke is True:
+        ctx.ok(R, ctx.site(PQ, em), "empty == (len == 0), sizes 0..3")
+    elif oke is False:
+        ctx.fail(R, ctx.site(PQ, em), "PriorityQueue.empty() is not `len(self.data) == 0`", "the Dijkstra loops run `while not queue.empty()`")
+    else:
+        ctx.undecided(R, ctx.site(PQ, em), "PriorityQueue.empty() is not recognised", au.src(rv)[:80] if rv is not None else "")
+    # ---- who may touch self.data
     n_uses = 0
     for st in cls.body:
         if not isinstance(st, ast.FunctionDef):
             continue
         for n in au.walk(st):
-            if not au.is_self_attr(n, "data"):
+            if not _self_data(n):
                 continue
             n_uses += 1
             par = au.parent(n)
-            good = False
-            if st.name == "__init__" and isinstance(par, (ast.Assign, ast.AnnAssign)) and isinstance(par.value, ast.List) and not par.value.elts:
+            good = None
+            if isinstance(par, (ast.Assign, ast.AnnAssign)) and (n in getattr(par, "targets", []) or getattr(par, "target", None) is n):
+                v = par.value
+                if st.name == "__init__" and (isinstance(v, ast.List) and not v.elts or (isinstance(v, ast.Call) and au.call_tail(v) == "list" and not v.args)):
+                    good = True
+                elif st.name == "__init__" and isinstance(v, ast.Name) and v.id in au.params(st):
+                    # bound to a parameter: shared with the caller (and with every other queue when the default is a mutable literal)
+                    dflt = _default_of(st, v.id)
+                    good = False if isinstance(dflt, (ast.List, ast.Dict, ast.Set)) or (isinstance(dflt, ast.Call)) else None
+                    if good is False:
+                        ctx.fail(R, ctx.site(PQ, st, n), "the heap list of PriorityQueue is a mutable default argument shared by every queue",
+                                 f"`{au.src(par)[:60]}` with default `{au.src(dflt)}`: all queues created without argument push into and pop from one list")
+                        continue
+                else:
+                    good = None
+            elif isinstance(par, ast.Call) and tail_of(par) in ("heappush", "heappop", "len", "heapify", "bool", "iter", "list", "sorted") and par.args and par.args[0] is n:
                 good = True
-            elif isinstance(par, ast.Call) and au.call_tail(par) in ("heappush", "heappop", "len") and par.args and par.args[0] is n:
+            elif isinstance(par, ast.Subscript) and par.value is n and isinstance(par.ctx, ast.Load):
+                good = True                       # reading an item by position (front) does not change the heap
+            elif isinstance(par, (ast.UnaryOp, ast.BoolOp, ast.If, ast.While, ast.IfExp, ast.Compare, ast.Return)):
                 good = True
-            elif isinstance(par, ast.Subscript) and par.value is n and isinstance(par.ctx, ast.Load) and au.const(par.slice) == 0:
+            elif isinstance(par, (ast.For, ast.comprehension)) and par.iter is n:
                 good = True
-            elif isinstance(par, ast.UnaryOp) and isinstance(par.op, ast.Not):
-                good = True
-            ctx.check(good, "C09-Q1", ctx.site(PQ, st, n),
-                      f"{st.name} uses self.data outside heappush / heappop / len / [0] (`{au.src(au.enclosing_stmt(n))[:60]}`)",
-                      "the list is a heap only as long as nothing but heapq writes it", note="self.data touched through heapq only")
+            elif isinstance(par, ast.Attribute) and isinstance(au.parent(par), ast.Call) and au.parent(par).func is par:
+                good = False if par.attr in ("append", "insert", "extend", "pop", "remove", "sort", "reverse", "clear", "popleft") else None
+            elif isinstance(par, ast.Subscript) and par.value is n and isinstance(par.ctx, (ast.Store, ast.Del)):
+                good = False
+            if good is True:
+                ctx.ok(R, ctx.site(PQ, st, n), "self.data touched through heapq only")
+            elif good is False:
+                ctx.fail(R, ctx.site(PQ, st, n), f"{st.name} modifies self.data outside heappush / heappop (`{au.src(au.enclosing_stmt(n))[:60]}`)",
+                         "the list is a heap only as long as nothing but heapq writes it")
+            else:
+                ctx.undecided(R, ctx.site(PQ, st, n), f"{st.name} uses self.data in a way the rule does not know", au.src(au.enclosing_stmt(n))[:70])
     if n_uses < 1:
-        ctx.fail("C09-Q1", ctx.site(PQ, cls), "heap list self.data of PriorityQueue not found", "the queue no longer stores its items in self.data")
-    _q1_every_push_inserts(ctx, pu, fields)
+        ctx.undecided(R, ctx.site(PQ, cls), "heap list self.data of PriorityQueue not found", "the queue no longer stores its items in self.data")
+    _q1_every_push_inserts(ctx, pu, Fp)
     _q1_no_side_index(ctx, cls, fields)
     _q1_priorities_immutable(ctx, fields)
     return info
 
 
-def _q1_every_push_inserts(ctx, pu, fields):
-    """must-dataflow: every normal exit of push has gone through heappush(self.data, PriorityItem(...))"""
+def _default_of(fn, pname):
+    a = fn.args
+    pos = a.posonlyargs + a.args
+    for x, d in zip(pos[len(pos) - len(a.defaults):], a.defaults):
+        if x.arg == pname:
+            return d
+    for x, d in zip(a.kwonlyargs, a.kw_defaults):
+        if x.arg == pname:
+            return d
+    return None
+
+
+def _q1_every_push_inserts(ctx, pu, Fp):
+    """must-dataflow: every normal exit of push has gone through heappush(self.data, ..)"""
+    aliases = _heap_aliases(ctx.repo.cls(PQ, "PriorityQueue"))
+
+    def is_push(c):
+        t = au.call_tail(c)
+        return aliases.get(t, t) == "heappush" and len(c.args) == 2 and _self_data(c.args[0])
+
     def t_stmt(state, st):
         for c in au.calls(st):
-            if au.call_tail(c) == "heappush" and len(c.args) == 2 and au.is_self_attr(c.args[0], "data"):
+            if is_push(c):
                 state = state | {"pushed"}
         return state
     fl = flow.Flow(t_stmt)
-    fl.run(pu.body, frozenset())
+    fl.run(Fp.fn.body, frozenset())
+    if not any(is_push(c) for c in au.calls(Fp.fn)):
+        return          # reported by the push rule
     bad = [(k, n) for k, n, st in fl.exits if k in ("return", "fall") and "pushed" not in st]
     conds = []
     for k, n in bad:
         if n is not None:
             conds += [("" if p_ else "not ") + au.src(e) for e, p_ in sk.atoms(sk.path_conds(n))]
+    # extra validation that *raises* on invalid input is not an exit without insertion; an early `return` is
     ctx.check(not bad, "C09-Q1", ctx.site(PQ, pu),
               "PriorityQueue.push returns on some path without heappush(self.data, item)",
               "every push must insert an entry: the lazy-deletion Dijkstra loops re-push a vertex to lower its key, a push that is skipped "
-              "(or replaced by an in-place update of a queued item) leaves the heap without an entry at the new label"
+              "(or replaced by an in-place update of a queued item / a plain append) leaves the heap without a correctly placed entry at the new label"
               + (f" (exit under: {', '.join(conds)})" if conds else ""),
               note="heappush on every normal exit of push")
 
@@ -863,7 +1408,6 @@ def _q1_no_side_index(ctx, cls, fields):
             if isinstance(r, ast.Subscript) and au.is_self_attr(r.value, "data"):
                 return True
             if isinstance(e, ast.Name):
-                # ambiguous reaching definition: any binding of the name to an item counts
                 for st in au.stmts(fn.body):
                     for nm, v in sym.split_assign(st):
                         if nm == e.id and isinstance(v, ast.Call) and au.call_tail(v) in ("PriorityItem", "heappop"):
@@ -892,9 +1436,9 @@ def _q1_no_side_index(ctx, cls, fields):
 
 
 def _q1_priorities_immutable(ctx, fields):
-    """the fields of a PriorityItem are never stored to after construction (queue module and the Dijkstra modules)"""
+    """the fields of a PriorityItem are never stored to after construction (queue module and the path module)"""
     n = 0
-    for modname in (PQ, PATHS, CUT):
+    for modname in (PQ, PATHS):
         m = ctx.repo.module(modname)
         for q, fn in m.funcs.items():
             for st in au.stmts(fn.body):
@@ -923,246 +1467,511 @@ def pq_names(fn):
     return out
 
 
-INF_SRC = ("float('inf')", "math.inf", "np.inf", "numpy.inf", "inf", "float('Inf')", "float('infinity')")
-
-
-def _mentions_inf(e):
-    return any(au.src(n) in INF_SRC for n in ast.walk(e))
-
-
-def dijkstra(ctx, modname, fn, item):
-    """All D1..D4 obligations of every Dijkstra loop of `fn`; returns the number of loops analysed."""
+def dijkstra(ctx, modname, fn, item, want_roles=False):
+    """All D1..D4 obligations of every Dijkstra loop of `fn` (analysed in flattened form); returns the number of loops analysed
+    (and the roles found in each loop when want_roles)."""
+    F = _flat(ctx, modname, fn)
     site = ctx.site(modname, fn)
-    qs = pq_names(fn)
-    b = sym.Bindings(fn)
+    qs = pq_names(F.fn)
+    roles = []
     n_loops = 0
     if not qs:
-        ctx.fail("C09-D1", site, "no PriorityQueue in a Dijkstra site", "the frontier of Dijkstra's algorithm must be a priority queue")
-        return 0
+        ctx.undecided("C09-D1", site, "no PriorityQueue in a Dijkstra site",
+                      "neither the function nor the private helpers it calls create a PriorityQueue: the frontier of the search is not recognised")
+        return (0, roles) if want_roles else 0
     for Q in sorted(qs):
-        loops = [st for st in au.stmts(fn.body) if isinstance(st, ast.While) and
+        loops = [st for st in au.stmts(F.fn.body) if isinstance(st, ast.While) and
                  any(isinstance(n, ast.Name) and n.id == Q for n in au.walk(st))]
         loops = [l for l in loops if not any(l is not o and any(a is o for a in au.ancestors(l)) for o in loops)]
         if len(loops) != 1:
-            ctx.fail("C09-D1", site, f"Dijkstra loop on `{Q}` not found", f"{len(loops)} while-loop(s) use the priority queue {Q}")
+            ctx.undecided("C09-D1", site, "Dijkstra loop on the priority queue not identified", f"{len(loops)} while-loop(s) use the priority queue")
             continue
-        loop = loops[0]
         n_loops += 1
-        _dijkstra_loop(ctx, modname, fn, b, Q, loop, item)
-    return n_loops
+        r = _dijkstra_loop(ctx, modname, fn, F, Q, loops[0], item)
+        if r:
+            roles.append(r)
+    return (n_loops, roles) if want_roles else n_loops
 
 
-def _dijkstra_loop(ctx, modname, fn, b, Q, loop, item):
-    site = ctx.site(modname, fn, loop)
+def _queue_truthiness(ctx):
+    """PriorityQueue is true exactly while it holds an item: __bool__ / __len__ defined on the heap list"""
+    for nm in ("__bool__", "__len__"):
+        if ctx.repo.has_func(PQ, "PriorityQueue." + nm):
+            fn = ctx.repo.func(PQ, "PriorityQueue." + nm)
+            rets = [st for st in au.stmts(fn.body) if isinstance(st, ast.Return) and st.value is not None]
+            if len(rets) == 1:
+                v = rets[0].value
+                if nm == "__len__" and isinstance(v, ast.Call) and au.call_tail(v) == "len" and len(v.args) == 1 and au.is_self_attr(v.args[0], "data"):
+                    return True
+                if nm == "__bool__":
+                    t = v
+                    if isinstance(t, ast.Call) and au.call_tail(t) == "bool" and len(t.args) == 1:
+                        t = t.args[0]
+                    if au.is_self_attr(t, "data") or (isinstance(t, ast.Compare) and au.canon_test(t) in ("0 < len(self.data)", "0 != len(self.data)", "len(self.data) != 0")):
+                        return True
+                    if isinstance(t, ast.UnaryOp) and isinstance(t.op, ast.Not) and isinstance(t.operand, ast.Call) and au.is_self_attr(t.operand.func, "empty"):
+                        return True
+            return False
+    return False
+
+
+def _tab(e):
+    """name of a table expression that is a plain Name, else None"""
+    return e.id if isinstance(e, ast.Name) else None
+
+
+def _dijkstra_loop(ctx, modname, fn0, F, Q, loop, item):
+    site = ctx.site(modname, fn0, loop)
     payload = (item or {}).get("payload") or "x"
+    b = F.b
+    roles = {"Q": Q, "loop": loop, "F": F}
+
+    def S(node):
+        return ctx.site(modname, fn0, node)
 
     def q_call(e, tails):
         return (isinstance(e, ast.Call) and isinstance(e.func, ast.Attribute) and isinstance(e.func.value, ast.Name)
                 and e.func.value.id == Q and e.func.attr in tails)
 
-    # ---- D1: loop condition and pop-min
+    def und(rule, node, construct, what=""):
+        ctx.undecided(rule, S(node) if node is not None else site, construct, what)
+
+    # ---------------------------------------------------------------- D1: loop condition and pop-min
     test_atoms = sk.atoms([(loop.test, True)])
-    runs_until_empty = any(q_call(e, ("empty",)) and not p for e, p in test_atoms)
-    ctx.check(runs_until_empty, "C09-D1", site, f"Dijkstra loop does not run `while not {Q}.empty()`",
-              "the loop must continue as long as a labelled, unsettled vertex is queued", note=f"while not {Q}.empty()")
-    v = pop_stmt = None
+    if any(q_call(e, ("empty",)) and not p for e, p in test_atoms):
+        ctx.ok("C09-D1", site, "while not queue.empty()")
+    elif any(q_call(e, ("empty",)) and p for e, p in test_atoms):
+        ctx.fail("C09-D1", site, "Dijkstra loop runs while the queue IS empty",
+                 "the loop must continue as long as a labelled, unsettled vertex is queued")
+    elif isinstance(loop.test, ast.Name) and loop.test.id == Q and _queue_truthiness(ctx):
+        ctx.ok("C09-D1", site, "while queue: (the queue is true while it holds an item)")
+    elif isinstance(loop.test, ast.Constant) and loop.test.value is True and loop.body and isinstance(loop.body[0], ast.If) \
+            and any(q_call(e, ("empty",)) and p for e, p in sk.atoms([(loop.body[0].test, True)])) and len(loop.body[0].body) == 1 \
+            and isinstance(loop.body[0].body[0], ast.Break) and not loop.body[0].orelse:
+        ctx.ok("C09-D1", site, "while True: if queue.empty(): break")
+    else:
+        und("C09-D1", loop, "loop condition of the Dijkstra loop is not `not queue.empty()`", au.src(loop.test)[:60])
+    v = None
+    bad_pop = None
+    other_attr = None
+    pop_stmt = None
     for st in loop.body:
-        if isinstance(st, ast.Assign) and len(st.targets) == 1 and isinstance(st.targets[0], ast.Name):
-            r = b.resolve(st.value, at=st, keep=(Q,))
+        for name, val in sym.split_assign(st):
+            r = b.resolve(val, at=st, keep=(Q,))
             if isinstance(r, ast.Attribute) and q_call(r.value, ("get", "pop")) and not r.value.args:
-                v, pop_stmt = st.targets[0].id, st
-                ctx.check(r.attr == payload, "C09-D1", ctx.site(modname, fn, st),
-                          f"popped item is read through .{r.attr}, the payload field of PriorityItem is .{payload}",
-                          "the current node must be the payload of the minimum item", note=f"{v} = {Q}.get().{payload}")
-                break
-    if v is None:
-        ctx.fail("C09-D1", site, f"current node is not taken from {Q}.get() / {Q}.pop()",
-                 "Dijkstra must settle the queued node of minimum label and remove it from the queue "
-                 "(`front` does not remove, `data.pop()` is not the minimum)")
-        return
-    # ---- locate the relaxation
-    relax = None
-    for st in au.stmts(loop.body):
-        if isinstance(st, ast.If):
-            for s in [n for n in au.walk(st.test) if sk.is_sub(n)]:
-                for a in st.body:
-                    if isinstance(a, ast.Assign) and len(a.targets) == 1 and sk.same_l(a.targets[0], s) and s.slice.id != v:
-                        relax = (st, s.value.id, s.slice.id, a)
-                        break
-                if relax:
-                    break
-        if relax:
+                if r.attr == payload:
+                    v = name
+                    pop_stmt = st
+                else:
+                    other_attr = (name, r.attr, st)
+            elif isinstance(r, ast.Attribute) and isinstance(r.value, ast.Attribute) and isinstance(r.value.value, ast.Name) \
+                    and r.value.value.id == Q and r.value.attr == "front":
+                bad_pop = (st, "`front` does not remove the item from the queue")
+            elif isinstance(r, ast.Attribute) and isinstance(r.value, (ast.Call, ast.Subscript)) and \
+                    au.src(_root(r.value.func.value if isinstance(r.value, ast.Call) and isinstance(r.value.func, ast.Attribute) else r.value)) == Q \
+                    and ".data" in au.src(r.value):
+                bad_pop = (st, "an item is taken from the heap list by position, not by heappop")
+        if v:
             break
-    pushes = [c for c in au.calls(loop) if q_call(c, ("push",))]
-    if relax is None:
-        ctx.fail("C09-D3", site, "guarded relaxation `if label[nv] > candidate: label[nv] = candidate` not found",
-                 "a label may only be lowered: without the guard the last neighbour processed overwrites a shorter label")
-        return
-    rif, LBL, nv, lab_assign = relax
-    # neighbour loop = outermost For inside the while containing the relaxation
-    fors = [a for a in au.ancestors(rif) if isinstance(a, ast.For) and any(x is loop for x in au.ancestors(a))]
+    if v is None:
+        if bad_pop:
+            ctx.fail("C09-D1", S(bad_pop[0]), "current node is not taken from queue.get() / queue.pop()",
+                     "Dijkstra must settle the queued node of minimum label and remove it from the queue: " + bad_pop[1])
+        elif other_attr and not any(isinstance(n, ast.Attribute) and n.attr == payload for n in au.walk(loop)):
+            ctx.fail("C09-D1", S(other_attr[2]), f"popped item is read through .{other_attr[1]}, the payload field of PriorityItem is .{payload}",
+                     "the current node must be the payload of the minimum item")
+        else:
+            und("C09-D1", loop, "the statement taking the current node from the priority queue is not recognised")
+        return None
+    ctx.ok("C09-D1", site, "current node = queue.get().<payload>")
+    roles["v"] = v
+    base_conds = {(hr.key(e), p) for e, p in F.conds(pop_stmt, stop=loop)} if pop_stmt is not None else set()
+
+    def LC(node, keep=()):
+        """conditions of `node` inside the loop, without those under which the iteration takes place at all (`if queue.empty(): break`)"""
+        return [(e, p) for e, p in F.conds(node, stop=loop, keep=keep) if (hr.key(e), p) not in base_conds]
+
+    def LCR(node, keep=()):
+        """the same with local names resolved where each test is evaluated"""
+        raw = F.conds(node, stop=loop)
+        res = F.conds_resolved(node, stop=loop, keep=keep)
+        return [(er, p) for (e, p), (er, p2) in zip(raw, res) if (hr.key(e), p) not in base_conds] if len(raw) == len(res) else \
+            [(e, p) for e, p in res if (hr.key(e), p) not in base_conds]
+    # leaving the loop as soon as the popped node is *a* target: the other requested targets keep non-final labels
+    for brk in [n for n in au.walk(loop) if isinstance(n, (ast.Break, ast.Return))]:
+        inner = [a for a in au.ancestors(brk) if isinstance(a, (ast.For, ast.While))]
+        if not inner or inner[0] is not loop:
+            continue
+        atoms = [(e, p) for e, p in LC(brk) if not ((ft := hr.flag_test(e, p)) and isinstance(ft[1], ast.Name) and F.root(ft[1].id, brk) == v
+                                                                     and isinstance(ft[0], ast.Name) and ft[0].id not in F.params)]
+        if len(atoms) == 1:
+            e, p = atoms[0]
+            if p and isinstance(e, ast.Compare) and len(e.ops) == 1 and isinstance(e.ops[0], ast.In) and isinstance(e.left, ast.Name) \
+                    and F.root(e.left.id, brk) == v and isinstance(e.comparators[0], ast.Name) and e.comparators[0].id in F.params:
+                ctx.fail("C09-D1", S(brk), "the Dijkstra loop is left as soon as the popped node is one of the targets",
+                         "with several targets the search stops at the first one reached: the labels / predecessors of the other targets are not "
+                         "final (or never set)")
+    # ---------------------------------------------------------------- locate the relaxation
+    # label store: T[k] = e inside the loop with k != v where (a) a comparison mentioning T[k] guards it, or (b) e is `T[v] + ..`
+    stores = hr.item_stores(loop)
+    cand_stores = []
+    for st, tg, val in stores:
+        if not (isinstance(tg.value, ast.Name) and isinstance(tg.slice, ast.Name)) or val is None:
+            continue
+        T, k = tg.value.id, F.root(tg.slice.id, st)
+        if k == v:
+            continue
+        conds = LC(st, keep=(v,))
+        cmp_atoms = [(e, p) for e, p in LCR(st, keep=(v, tg.slice.id)) if isinstance(e, ast.Compare) and len(e.ops) == 1
+                     and any(sk.is_sub(x, T) and F.root(x.slice.id, st) == k for x in au.walk(e))]
+        rval = F.resolve(val, st, keep=(v,))
+        by_shape = any(sk.is_sub(x, T, v) for x in hr.add_terms(rval)) and len(hr.add_terms(rval)) >= 2
+        if cmp_atoms or by_shape:
+            cand_stores.append((st, tg, val, T, k, conds, cmp_atoms, rval))
+    if not cand_stores:
+        und("C09-D3", loop, "the relaxation `if label[nv] > candidate: label[nv] = candidate` is not recognised",
+            "no item store in the loop is guarded by a comparison on the stored table or has the form table[v] + weight")
+        return roles
+    # all candidates must agree on the label table and the neighbour
+    LBLs = {c[3] for c in cand_stores}
+    if len(LBLs) != 1:
+        # predecessor stores are guarded by the same comparison: keep the table that is itself compared
+        LBLs2 = {c[3] for c in cand_stores if any(any(sk.is_sub(x, c[3]) for x in au.walk(e)) for e, p in c[6])}
+        LBLs = LBLs2 if len(LBLs2) == 1 else LBLs
+    if len(LBLs) != 1:
+        und("C09-D3", loop, "label table of the relaxation is ambiguous", f"{len(LBLs)} candidate tables")
+        return roles
+    LBL = next(iter(LBLs))
+    lab = [c for c in cand_stores if c[3] == LBL]
+    st0, tg0, val0, _, nvr, conds0, cmp0, rval0 = lab[0]
+    nv = tg0.slice.id
+    roles.update(LBL=LBL, nv=nv)
+    fors = [a for a in au.ancestors(st0) if isinstance(a, ast.For) and F.inside(a, loop)]
     nloop = fors[-1] if fors else None
     if nloop is None:
-        ctx.fail("C09-D3", site, "relaxation is not inside a loop over the neighbours of the popped node", "")
-        return
+        und("C09-D3", st0, "relaxation is not inside a loop over the neighbours of the popped node")
+        return roles
     ftargets = set(au.assigned_names(nloop.target))
-    # ---- D2
-    vis = None
-    for e, p in sk.atoms(sk.path_conds(nloop, stop=loop)):
-        if sk.is_sub(e, idx=v) and p is False:
-            vis = e.value.id
-    ctx.check(vis is not None, "C09-D2", site, f"neighbour loop is not guarded by `if visited[{v}]: continue`",
-              "with lazy deletion a vertex is queued several times: a stale entry must be skipped, otherwise a settled vertex "
-              "is expanded again from an outdated queue entry", note=f"stale entries of {v} are skipped")
-    if vis is not None:
-        marks = [st for st in au.stmts(loop.body) if isinstance(st, ast.Assign) and len(st.targets) == 1
-                 and sk.is_sub(st.targets[0], vis, v)]
-        good = [m for m in marks if au.const(m.value) is True and not any(a is nloop for a in au.ancestors(m))
-                and all((sk.is_sub(e, vis, v) and not p) for e, p in sk.atoms(sk.path_conds(m, stop=loop)))]
-        ctx.check(len(good) >= 1 and len(good) == len(marks), "C09-D2", site,
-                  f"`{vis}[{v}] = True` is missing, conditional, or not set to True after the stale-entry test",
-                  "an expanded vertex must be marked settled, otherwise every queued duplicate expands it again and "
-                  "`if visited: continue` never fires", note=f"{vis}[{v}] = True on the expansion path")
-        d = b.reaching(vis, loop)
-        bad_init = d is not None and any(isinstance(n, ast.Constant) and n.value is True for n in ast.walk(d))
-        ctx.check(not bad_init, "C09-D2", site, f"`{vis}` is initialised with True", "every vertex must start unsettled",
-                  note=f"{vis} starts False")
-    # ---- D3
-    s3 = ctx.site(modname, fn, rif)
-    t = rif.test
-    cand = None
-    strict_ok = False
-    if isinstance(t, ast.Compare) and len(t.ops) == 1:
-        l, r = t.left, t.comparators[0]
-        if sk.is_sub(l, LBL, nv):
-            cand, strict_ok = r, isinstance(t.ops[0], ast.Gt)
-        elif sk.is_sub(r, LBL, nv):
-            cand, strict_ok = l, isinstance(t.ops[0], ast.Lt)
-    if cand is None:
-        ctx.fail("C09-D3", s3, "relaxation test is not a single comparison of label[nv] with the candidate", au.src(t))
-        return
-    ctx.check(strict_ok, "C09-D3", s3,
-              f"relaxation test `{_generic(t, LBL, nv, v)}` is not `label[nv] > candidate`",
-              "with >= a tie rewrites the predecessor of an already settled vertex: two vertices joined by a zero-weight edge "
-              "(every target and the virtual sink are) become each other's predecessor and back-tracking never terminates; "
-              "with < or <= labels never decrease", note="label[nv] > candidate (strict)")
+    for f_ in fors:
+        ftargets |= set(au.assigned_names(f_.target))
     keep = tuple({v, nv, LBL} | ftargets)
-    cres = sk.resolve_values(b, cand, rif, keep=keep)
-    ares = sk.resolve_values(b, lab_assign.value, lab_assign, keep=keep)
-    ctx.check(au.same(cres, ares), "C09-D3", s3,
-              "label is updated with a value different from the candidate that was tested",
-              f"tested `{au.src(cres)}`, stored `{au.src(ares)}`", note="stored label == tested candidate")
-    terms = _add_terms(cres)
-    base = [x for x in terms if sk.is_sub(x, LBL, v)]
-    wts = [x for x in terms if not sk.is_sub(x, LBL, v)]
-    okc = len(base) == 1 and len(wts) >= 1 and not any(LBL in au.names(w) for w in wts)
-    ctx.check(okc, "C09-D3", s3, f"candidate `{_generic(cres, LBL, nv, v)}` is not `label[v] + weight`",
-              "the tentative distance of a neighbour is the settled distance of the expanded vertex plus the edge weight",
-              note="candidate = label[v] + w")
-    if okc:
-        wn = set().union(*[au.names(w) for w in wts])
-        is_const = all(order.fold_const(w) is not None for w in wts)
-        dep = is_const or (v in wn and (nv in wn or (wn & ftargets)))
-        ctx.check(dep, "C09-D3", s3, "edge weight of the relaxation does not depend on both the expanded node and the neighbour",
-                  f"weight `{' + '.join(au.src(w) for w in wts)}` must be the weight of the edge ({v}, {nv})",
-                  note="weight reads both ends of the edge")
-    # stores
-    blk = rif.body
-    lab_stores = [st for st in au.stmts(loop.body) if isinstance(st, (ast.Assign, ast.AugAssign))
-                  and any(isinstance(tg, ast.Subscript) and isinstance(tg.value, ast.Name) and tg.value.id == LBL
-                          for tg in au.assign_targets(st))]
-    ctx.check(all(any(s is x for x in blk) for s in lab_stores) and len(lab_stores) == 1, "C09-D3", s3,
-              f"label table is written outside the guarded relaxation block ({len(lab_stores)} store(s) in the loop)",
-              "labels may only decrease, through the guarded update", note="single label store, inside the guard")
-    pred_stores = [st for st in blk if isinstance(st, ast.Assign) and len(st.targets) == 1 and sk.is_sub(st.targets[0], None, nv)
-                   and st.targets[0].value.id not in (LBL, vis)]
-    if len(pred_stores) != 1:
-        ctx.fail("C09-D3", s3, "predecessor is not updated in the block that updates the label",
-                 f"{len(pred_stores)} store(s) `pred[{nv}] = ...` next to `{LBL}[{nv}] = ...`: label and predecessor must change together, "
-                 "otherwise back-tracking follows a predecessor that belongs to a longer path")
-        return
-    PRED = pred_stores[0].targets[0].value.id
-    pv = pred_stores[0].value
-    okp = isinstance(pv, ast.Name) and (pv.id == v or pv.id in ftargets) and pv.id != nv
-    ctx.check(okp, "C09-D3", ctx.site(modname, fn, pred_stores[0]),
-              f"predecessor of the neighbour is set to `{_generic(pv, LBL, nv, v)}`, not to the expanded node (or the edge crossed)",
-              "back-tracking follows pred[] from the target to the start", note=f"{PRED}[{nv}] = expanded node / crossed edge")
-    other_pred = [st for st in au.stmts(loop.body) if isinstance(st, (ast.Assign, ast.AugAssign))
-                  and any(isinstance(tg, ast.Subscript) and isinstance(tg.value, ast.Name) and tg.value.id == PRED
-                          for tg in au.assign_targets(st)) and not any(st is x for x in blk)]
-    ctx.check(not other_pred, "C09-D3", s3, "predecessor table is also written outside the guarded relaxation block",
-              "label and predecessor must change together", note="predecessor written only with the label")
-    # ---- D4
-    good_push = []
-    for c in pushes:
-        cst = au.enclosing_stmt(c)
-        if len(c.args) != 2 or c.keywords:
-            continue
-        el, pr = c.args
-        if not (isinstance(el, ast.Name) and el.id == nv):
-            continue
-        inside = any(a is rif for a in au.ancestors(c))
-        after = False
-        if inside:
-            top = sk.top_stmt_in(rif.body, c)
-            after = top is not None and sk.index_in(rif.body, top) > sk.index_in(rif.body, lab_assign)
+    pure = {name for name, st_, ps_, body_ in _callable_bodies(F) if body_ is not None}
+    pure -= {name for name, st_, ps_, body_ in _callable_bodies(F) if body_ is None}
+    opaque = F.opaque(loop, {v, nv, LBL} | ftargets, known=pure)
+
+    def is_lbl(x, idx, at=None):
+        """x is `label[<idx>]` (copies of the index name followed; `at`: a node of the function near which the names are read)"""
+        at = at if at is not None else st0
+        return sk.is_sub(x, LBL) and F.root(x.slice.id, at) == F.root(idx, at)
+    # ---------------------------------------------------------------- D2
+    vis = None
+    vis_conds = LC(nloop, keep=(v,))
+    for e, p in vis_conds:
+        ft = hr.flag_test(e, p)
+        if ft and isinstance(ft[0], ast.Name) and isinstance(ft[1], ast.Name) and F.root(ft[1].id, nloop) == v and ft[2] is False:
+            vis = ft[0].id
+    marks_v = []
+    for st in au.stmts(loop.body):
+        fm = hr.flag_mark(st)
+        if fm and isinstance(fm[0], ast.Name) and isinstance(fm[1], ast.Name) and F.root(fm[1].id, st) == v and fm[0].id != LBL:
+            marks_v.append((st, fm))
+    by_label = [e for e, p in vis_conds if isinstance(e, ast.Compare) and any(sk.is_sub(x, LBL) and F.root(x.slice.id, nloop) == v for x in au.walk(e))]
+    if vis is None and by_label:
+        ctx.undecided("C09-D2", S(nloop), "stale queue entries are skipped by comparing the popped priority with the label: this scheme is not analysed", "")
+        vis = marks_v[0][1][0].id if marks_v else None
+        roles["VIS"] = vis
+        marks_v = []
+        vis_scheme_other = True
+    elif vis is None and marks_v:
+        vis_guess = marks_v[0][1][0].id
+        inverted = any((ft := hr.flag_test(e, p)) and isinstance(ft[0], ast.Name) and ft[0].id == vis_guess and ft[2] is True for e, p in vis_conds)
+        (ctx.fail if inverted else (lambda *a: _absent(ctx, F, loop, *a)))(
+            "C09-D2", site, "neighbour loop is not guarded by `if visited[v]: continue`",
+            "with lazy deletion a vertex is queued several times: a stale entry must be skipped, otherwise a settled vertex "
+            "is expanded again from an outdated queue entry" + (" (the test is inverted)" if inverted else ""))
+        vis = vis_guess
+    elif vis is None:
+        und("C09-D2", nloop, "the stale-entry test (`if visited[v]: continue`) is not recognised",
+            "no flag table is tested on the popped node before its neighbours are scanned")
+    else:
+        ctx.ok("C09-D2", site, "stale entries of the popped node are skipped")
+    roles["VIS"] = vis
+    if vis is not None and not by_label:
+        mv = [(st, fm) for st, fm in marks_v if fm[0].id == vis]
+        good = []
+        bad_kind = None
+        for st, fm in mv:
+            if fm[2] is not True:
+                bad_kind = "set to False"
+                continue
+            if F.inside(st, nloop):
+                bad_kind = "set inside the neighbour loop"
+                continue
+            extra = [(e, p) for e, p in LC(st, keep=(v,))
+                     if not ((ft := hr.flag_test(e, p)) and isinstance(ft[0], ast.Name) and ft[0].id == vis and ft[2] is False)]
+            if extra:
+                bad_kind = "conditional"
+                continue
+            good.append(st)
+        if good and not bad_kind:
+            ctx.ok("C09-D2", site, "popped node marked settled on the expansion path")
+        elif (not mv and opaque) or bad_kind == "conditional" or (not mv and [x for x in stores if isinstance(x[1].value, ast.Name) and x[1].value.id == vis]):
+            und("C09-D2", loop, "the settled mark of the popped node is not recognised")
         else:
-            # the push (or the statement containing it) is a later sibling of the relaxation If
-            rb, _ = au.enclosing_block(rif)
-            top = sk.top_stmt_in(rb, c) if rb else None
-            after = top is not None and sk.index_in(rb, top) > sk.index_in(rb, rif)
+            ctx.fail("C09-D2", site, "`visited[v] = True` is missing, conditional, or not set to True after the stale-entry test",
+                     "an expanded vertex must be marked settled, otherwise every queued duplicate expands it again and "
+                     "`if visited: continue` never fires" + (f" (the mark is {bad_kind})" if bad_kind else ""))
+        ivals, found = F.initial_values(vis, loop)
+        if any(isinstance(n, ast.Constant) and n.value is True for x in ivals for n in ast.walk(x)):
+            ctx.fail("C09-D2", site, "the visited table is initialised with True", "every vertex must start unsettled")
+        else:
+            ctx.ok("C09-D2", site, "visited starts False")
+    # ---------------------------------------------------------------- D3
+    s3 = S(st0)
+    lkey = hr.key(sk.sub(LBL, tg0.slice.id))
+    # every store to the label table inside the loop
+    lab_stores = [(st, tg, val) for st, tg, val in stores if isinstance(tg.value, ast.Name) and tg.value.id == LBL]
+    cres = None
+    d3_ok = True
+    for st, tg, val in lab_stores:
+        if not isinstance(tg.slice, ast.Name) or F.root(tg.slice.id, st) != F.root(nv, st) or val is None:
+            if isinstance(tg.slice, ast.Name) and F.root(tg.slice.id, st) == v:
+                ctx.fail("C09-D3", S(st), "label table is written outside the guarded relaxation", "the label of the settled node is rewritten: labels may only decrease, through the guarded update")
+            else:
+                und("C09-D3", st, "the label table is written at a key the rule does not recognise")
+            d3_ok = False
+            continue
+        conds = LC(st, keep=keep)
+        rel = None
+        for (e, p), (er, p2) in zip(conds, LCR(st, keep=keep)):
+            for cand_e in (e, er):
+                for x in au.walk(cand_e):
+                    if rel is None and is_lbl(x, nv, st):
+                        r_ = hr.effective_cmp(cand_e, p, hr.key(x))
+                        if r_:
+                            rel = (r_[0], r_[1], e)
+        if rel is None:
+            unknown_c = [e for e, p in conds if any(isinstance(n, ast.Call) and au.call_tail(n) not in ("len", "isinf") for n in ast.walk(e))
+                         and (LBL in au.names(e) or nv in au.names(e))]
+            if conds or unknown_c or opaque or (isinstance(val, ast.Call) and au.call_tail(val) in ("min", "minimum")):
+                und("C09-D3", st, "the guard of the label update is not a comparison the rule can read", au.src(unknown_c[0])[:60] if unknown_c else "")
+            else:
+                ctx.fail("C09-D3", S(st), "label is written without the test `label[nv] > candidate`",
+                         "a label may only be lowered: without the guard the last neighbour processed overwrites a shorter label")
+            d3_ok = False
+            continue
+        op, cand, cmp_e = rel
+        if op is ast.Gt:
+            ctx.ok("C09-D3", S(st), "label[nv] > candidate (strict)")
+        else:
+            d3_ok = False
+            ctx.fail("C09-D3", S(st), f"relaxation test `{_generic(cmp_e, LBL, nv, v)}` is not `label[nv] > candidate`",
+                     "with >= a tie rewrites the predecessor of an already settled vertex: two vertices joined by a zero-weight edge "
+                     "(every target and the virtual sink are) become each other's predecessor and back-tracking never terminates; "
+                     "with < or <= labels never decrease")
+        cr = F.resolve(cand, st, keep=keep)
+        ar = F.resolve(val, st, keep=keep)
+        if hr.same(cr, ar) or sym.to_poly(cr) == sym.to_poly(ar):
+            ctx.ok("C09-D3", S(st), "stored label == tested candidate")
+        else:
+            d3_ok = False
+            ctx.fail("C09-D3", S(st), "label is updated with a value different from the candidate that was tested",
+                     f"tested `{_generic(cr, LBL, nv, v)}`, stored `{_generic(ar, LBL, nv, v)}`")
+        cres = cres or cr
+        roles.setdefault("cmp", cmp_e)
+    if cres is not None:
+        terms = hr.add_terms(cres)
+
+        def is_popped_priority(x):
+            r_ = b.resolve(x, at=st0, keep=(Q,))
+            return isinstance(r_, ast.Attribute) and r_.attr == (item or {}).get("priority", "priority") and q_call(r_.value, ("get", "pop"))
+        base = [x for x in terms if is_lbl(x, v) or is_popped_priority(x)]
+        wts = [x for x in terms if not (is_lbl(x, v) or is_popped_priority(x))]
+        if len(base) == 1 and wts and not any(LBL in au.names(w) for w in wts):
+            ctx.ok("C09-D3", s3, "candidate = label[v] + w")
+            wn = set().union(*[au.names(w) for w in wts])
+            is_const = all(order.fold_const(w) is not None for w in wts)
+            clo = hr.closure(F.deps(), wn)
+            iter_names = au.names(nloop.iter)
+            co_targets = set(au.assigned_names(nloop.target))
+            dep_v = v in clo or any(F.root(x, nloop) == v for x in clo)
+            dep_nv = nv in clo or bool(wn & (co_targets - {nv})) or any(x in ftargets for x in clo)
+            if is_const or (dep_v and dep_nv):
+                ctx.ok("C09-D3", s3, "weight reads both ends of the edge")
+            elif any(isinstance(n, ast.Call) and not isinstance(n.func, ast.Attribute) for w in wts for n in ast.walk(w)) and not (dep_v or dep_nv):
+                und("C09-D3", st0, "the edge weight of the relaxation is computed by a call the rule cannot read")
+            else:
+                ctx.fail("C09-D3", s3, "edge weight of the relaxation does not depend on both the expanded node and the neighbour",
+                         f"weight `{' + '.join(_generic(w, LBL, nv, v) for w in wts)}` must be the weight of the edge (v, nv)")
+        elif any(is_lbl(x, nv) for x in terms):
+            ctx.fail("C09-D3", s3, f"candidate `{_generic(cres, LBL, nv, v)}` is not `label[v] + weight`",
+                     "the tentative distance of a neighbour is the settled distance of the expanded vertex plus the edge weight")
+        elif len(base) == 1 and not wts:
+            ctx.fail("C09-D3", s3, f"candidate `{_generic(cres, LBL, nv, v)}` is not `label[v] + weight`", "the edge weight is missing")
+        else:
+            und("C09-D3", st0, "the candidate label is not of the form label[v] + weight", _generic(cres, LBL, nv, v)[:60])
+    # predecessor
+    cmp_key = hr.key(roles["cmp"]) if "cmp" in roles else None
+    pred_stores = []
+    stray_pred = []
+    for st, tg, val in stores:
+        if not isinstance(tg.value, ast.Name) or tg.value.id in (LBL, vis) or not isinstance(tg.slice, ast.Name) or val is None:
+            continue
+        if F.root(tg.slice.id, st) != F.root(nv, st):
+            continue
+        if isinstance(val, ast.Constant):
+            continue
+        pv_ = F.resolve(val, st, keep=keep)
+        if not isinstance(pv_, ast.Name):
+            continue                 # another per-node table (hop count ..), not a predecessor
+        conds = LC(st, keep=keep)
+        under = cmp_key is not None and any(hr.key(e) == cmp_key for e, p in conds)
+        if not under:
+            # the same comparison written again (resolved) also counts
+            under = any(any(is_lbl(x, nv, st) for x in au.walk(e)) and isinstance(e, ast.Compare) for e, p in conds)
+        (pred_stores if under else stray_pred).append((st, tg, val))
+    if pred_stores:
+        PRED = pred_stores[0][1].value.id
+        roles["PRED"] = PRED
+        for st, tg, val in pred_stores:
+            pv = F.resolve(val, st, keep=keep)
+            okp = isinstance(pv, ast.Name) and (pv.id == v or pv.id in ftargets) and F.root(pv.id, st) != F.root(nv, st)
+            if okp:
+                ctx.ok("C09-D3", S(st), "predecessor[nv] = expanded node / crossed edge")
+            elif isinstance(pv, ast.Name):
+                ctx.fail("C09-D3", S(st), f"predecessor of the neighbour is set to `{_generic(pv, LBL, nv, v)}`, not to the expanded node (or the edge crossed)",
+                         "back-tracking follows pred[] from the target to the start")
+            else:
+                und("C09-D3", st, "the value stored as predecessor is not a plain node / edge variable", au.src(pv)[:50])
+        other = [(st, tg, val) for st, tg, val in stray_pred if tg.value.id == PRED]
+        if other:
+            ctx.fail("C09-D3", S(other[0][0]), "predecessor table is also written outside the guarded relaxation block",
+                     "label and predecessor must change together")
+    elif d3_ok and [x for x in stray_pred if isinstance(F.resolve(x[2], x[0], keep=keep), ast.Name) and
+                    (F.resolve(x[2], x[0], keep=keep).id == v or F.resolve(x[2], x[0], keep=keep).id in ftargets)]:
+        ctx.fail("C09-D3", S(stray_pred[0][0]), "predecessor table is written outside the guarded relaxation block",
+                 "label and predecessor must change together: otherwise back-tracking follows a predecessor that belongs to a longer path")
+        roles["PRED"] = stray_pred[0][1].value.id
+    elif opaque:
+        und("C09-D3", st0, "the predecessor update is not visible (a helper receives the loop variables)")
+    elif d3_ok:
+        ctx.fail("C09-D3", s3, "predecessor is not updated in the block that updates the label",
+                 "label and predecessor must change together, otherwise back-tracking follows a predecessor that belongs to a longer path")
+    # ---------------------------------------------------------------- D4
+    pushes = [c for c in au.calls(loop) if q_call(c, ("push",))]
+    # local names that mirror the label of the neighbour: `best = label[nv]` before the test, `best = candidate` next to `label[nv] = candidate`
+    mirrors = set()
+    for st_ in au.stmts(nloop.body):
+        for nm_, v_ in sym.split_assign(st_):
+            if is_lbl(v_, nv, st_) and F.before(st_, st0):
+                others_ = [(s2, v2) for s2 in au.stmts(nloop.body) for n2, v2 in sym.split_assign(s2) if n2 == nm_ and s2 is not st_]
+                if all(cmp_key is not None and any(hr.key(e) == cmp_key for e, p in LC(s2, keep=keep)) for s2, v2 in others_) and \
+                        all(cres is not None and (hr.same(F.resolve(v2, s2, keep=keep), cres) or is_lbl(v2, nv, s2)) for s2, v2 in others_):
+                    mirrors.add(nm_)
+    good_push = []
+    why_bad = []
+    relax_conds = {(hr.key(e), p) for e, p in conds0}
+    for c in pushes:
+        if len(c.args) != 2 or c.keywords:
+            why_bad.append(("und", "push with keyword / extra arguments"))
+            continue
+        el, pr_ = c.args
+        elr = F.resolve(el, c, keep=keep)
+        if not (isinstance(elr, ast.Name) and F.root(elr.id, c) == F.root(nv, c)):
+            if isinstance(elr, ast.Name) and F.root(elr.id, c) == v:
+                why_bad.append(("fail", "the expanded node is pushed instead of the neighbour"))
+            else:
+                why_bad.append(("und", f"pushes `{au.src(el)[:30]}`"))
+            continue
+        if not F.inside(c, nloop):
+            why_bad.append(("und", "push outside the neighbour loop"))
+            continue
+        after = all(F.before(st, c) for st, tg, val in lab_stores)
+        pres = F.resolve(pr_, c, keep=keep)
+        is_label_read = is_lbl(pr_, nv, c) or is_lbl(pres, nv, c) or (isinstance(pr_, ast.Name) and pr_.id in mirrors)
+        is_cand = cres is not None and hr.same(pres, cres)
+        if not (is_label_read or is_cand):
+            if is_lbl(pres, v, c) or is_lbl(pr_, v, c):
+                why_bad.append(("fail", "the neighbour is pushed with the label of the expanded node"))
+            else:
+                why_bad.append(("und", f"priority `{au.src(pr_)[:30]}`"))
+            continue
         if not after:
+            why_bad.append(("fail", "the neighbour is pushed with its label before the label is updated (stale label)"))
             continue
-        pres = sk.resolve_values(b, pr, cst, keep=keep)
-        if not (sk.is_sub(pr, LBL, nv) or au.same(pres, cres) or sk.is_sub(pres, LBL, nv)):
-            continue
-        extra = [(e, p) for e, p in sk.atoms(sk.path_conds(c, stop=nloop))
-                 if not any(au.norm(e) == au.norm(e2) and p == p2 for e2, p2 in sk.atoms(sk.path_conds(rif, stop=nloop)))]
+        extra = [(e, p) for e, p in F.conds(c, stop=nloop, keep=keep)
+                 if not any(hr.key(e) == hr.key(e2) and p == p2 for e2, p2 in F.conds(nloop.body[0], stop=nloop, keep=keep))]
         okg = True
         for e, p in extra:
-            if sk.is_sub(e, vis, nv) and p is False:
+            ft = hr.flag_test(e, p)
+            if ft and isinstance(ft[0], ast.Name) and (vis is None or ft[0].id == vis) and isinstance(ft[1], ast.Name) \
+                    and F.root(ft[1].id, c) == F.root(nv, c):
+                if ft[2] is False:
+                    continue
+                why_bad.append(("fail", "the push is guarded by `visited[nv]` (inverted)"))
+                okg = False
+                break
+            if (hr.key(e), p) in relax_conds:
                 continue
-            if au.norm(e) in [au.norm(x) for x, q in sk.atoms([(rif.test, True)]) if q] and p is True:
-                continue
+            if isinstance(e, ast.Compare) and isinstance(e.ops[0], (ast.Is, ast.Eq)) and hr.is_none(e.comparators[0]) and not p:
+                continue        # `nv is not None`
+            why_bad.append(("und", f"push guarded by `{au.src(e)[:40]}`"))
             okg = False
+            break
         if okg:
             good_push.append(c)
-    s4 = ctx.site(modname, fn, pushes[0]) if pushes else site
-    ctx.check(bool(good_push), "C09-D4", s4,
-              "no push of the neighbour with its updated label after the relaxation",
-              f"after `{LBL}[{nv}]` decreases, `{nv}` must be queued with exactly that label (guarded at most by `not visited[{nv}]`): "
-              "a missing, stale, or wrongly guarded push settles vertices in the wrong order or never reaches them"
-              + (f"; pushes found: {[au.src(c) for c in pushes]}" if pushes else "; no push in the loop"),
-              note=f"{Q}.push({nv}, {LBL}[{nv}]) after the update")
+    s4 = S(pushes[0]) if pushes else site
+    if good_push:
+        ctx.ok("C09-D4", s4, "queue.push(nv, label[nv]) after the update")
+    elif any(k == "fail" for k, _ in why_bad):
+        ctx.fail("C09-D4", s4, "no push of the neighbour with its updated label after the relaxation",
+                 "after `label[nv]` decreases, `nv` must be queued with exactly that label (guarded at most by `not visited[nv]`): "
+                 "a missing, stale, or wrongly guarded push settles vertices in the wrong order or never reaches them: "
+                 + "; ".join(t for k, t in why_bad if k == "fail"))
+    elif not pushes and not opaque:
+        ctx.fail("C09-D4", s4, "no push of the neighbour with its updated label after the relaxation", "no push in the loop: the search stops at the start vertex")
+    else:
+        und("C09-D4", pushes[0] if pushes else loop, "the push of the relaxed neighbour is not recognised", "; ".join(t for k, t in why_bad))
     # initialisation
-    d = b.reaching(LBL, loop)
-    ctx.check(d is not None and _mentions_inf(d), "C09-D4", site, f"labels `{LBL}` are not initialised to +inf",
-              "an unreached vertex must lose every comparison `label[nv] > candidate`", note=f"{LBL} starts at +inf")
-    fb, _ = au.enclosing_block(loop)
-    idx = sk.index_in(fb, loop) if fb else -1
-    pre = list(au.stmts(fb[:idx])) if fb and idx >= 0 else []
-    init_push = [c for st in pre for c in au.calls(st) if q_call(c, ("push",)) and len(c.args) == 2]
-    init_lab = [st for st in pre if isinstance(st, ast.Assign) and len(st.targets) == 1 and isinstance(st.targets[0], ast.Subscript)
-                and isinstance(st.targets[0].value, ast.Name) and st.targets[0].value.id == LBL
-                and not au.guards(st)]
+    ivals, found = F.initial_values(LBL, loop)
+    if any(F.is_inf(x) for x in ivals):
+        ctx.ok("C09-D4", site, "labels start at +inf")
+    elif found and ivals and all(order.fold_const(x) is not None and abs(order.fold_const(x)) <= 1 for x in ivals):
+        ctx.fail("C09-D4", site, "labels are not initialised to +inf", "an unreached vertex must lose every comparison `label[nv] > candidate`")
+    else:
+        und("C09-D4", loop, "the initial value of the labels is not visible")
+    pre_push = [c for c in au.calls(F.fn) if q_call(c, ("push",)) and len(c.args) == 2 and F.before(c, loop) and not F.inside(c, loop)]
+    pre_lab = [(st, tg, val) for st, tg, val in hr.item_stores(F.fn) if F.before(st, loop) and isinstance(tg.value, ast.Name)
+               and F.root(tg.value.id, st) == F.root(LBL, loop) and val is not None]
     ok_init = False
-    why = f"{len(init_push)} push(es) and {len(init_lab)} label store(s) before the loop"
-    for c in init_push:
-        if au.guards(c):
-            continue
-        for st in init_lab:
-            cv = order.fold_const(st.value)
-            if sk.same_l(st.targets[0].slice, c.args[0]) and cv is not None and cv != float("inf") and cv == cv \
+    for c in pre_push:
+        for st, tg, val in pre_lab:
+            cv = order.fold_const(val)
+            if hr.same(F.resolve(tg.slice, st), F.resolve(c.args[0], c)) and cv is not None and cv != float("inf") and cv == cv \
                     and order.fold_const(c.args[1]) is not None:
                 ok_init = True
-    ctx.check(ok_init, "C09-D4", site, "start is not both given a finite label and pushed before the loop", why,
-              note="label[start] = 0 and push(start, 0) before the loop")
-
-
-def _add_terms(e):
-    if isinstance(e, ast.BinOp) and isinstance(e.op, ast.Add):
-        return _add_terms(e.left) + _add_terms(e.right)
-    return [e]
+                roles["start"] = c.args[0]
+    lbl_def = F.definition(LBL, loop)
+    if not ok_init and isinstance(lbl_def, ast.Dict):
+        for c in pre_push:
+            for k_, v_ in zip(lbl_def.keys, lbl_def.values):
+                cv = order.fold_const(v_) if v_ is not None else None
+                if k_ is not None and hr.same(k_, c.args[0]) and cv is not None and cv != float("inf"):
+                    ok_init = True
+                    roles["start"] = c.args[0]
+    uniform_ctor = isinstance(lbl_def, (ast.DictComp, ast.ListComp)) or (isinstance(lbl_def, ast.Call) and au.call_tail(lbl_def) in ("dict", "fromkeys")) \
+        or (isinstance(lbl_def, ast.BinOp) and isinstance(lbl_def.op, ast.Mult))
+    if ok_init:
+        ctx.ok("C09-D4", site, "label[start] = 0 and push(start, 0) before the loop")
+    elif pre_push and not pre_lab and found and uniform_ctor:
+        ctx.fail("C09-D4", site, "start is not both given a finite label and pushed before the loop",
+                 f"{len(pre_push)} push(es) and no label store before the loop")
+    elif pre_lab and not pre_push and not F.opaque(F.fn, {Q}):
+        ctx.fail("C09-D4", site, "start is not both given a finite label and pushed before the loop",
+                 f"no push and {len(pre_lab)} label store(s) before the loop")
+    else:
+        und("C09-D4", loop, "the seeding of the search (label[start] = 0, push(start, 0)) is not recognised")
+    return roles
 
 
 def _generic(e, LBL, nv, v):
@@ -1172,52 +1981,95 @@ def _generic(e, LBL, nv, v):
 
 
 # ----------------------------------------------------------------------- C09-W1
+def _callable_bodies(F):
+    """(name, binding stmt, parameter names, body expression or None) for lambdas / single-return local defs bound in the function"""
+    out = []
+    for name, binds in sk.callable_bindings(F.fn).items():
+        for st, args in binds:
+            ps = [a.arg for a in args.posonlyargs + args.args]
+            if isinstance(st, ast.Assign):
+                out.append((name, st, ps, st.value.body))
+            else:
+                body = hf_flat.strip_doc(st.body)
+                if len(body) == 1 and isinstance(body[0], ast.Return) and body[0].value is not None:
+                    out.append((name, st, ps, body[0].value))
+                else:
+                    out.append((name, st, ps, None))
+    return out
+
+
+def _stale_source(F, expr, skip=()):
+    """a local container read by `expr` that is bound to a *stored* attribute (get_attribute / persistent=True): text or None"""
+    for nm in au.names(expr):
+        if nm in skip or nm in F.params:
+            continue
+        for st in au.stmts(F.fn.body):
+            for n2, v in sym.split_assign(st):
+                if n2 != nm or not isinstance(v, ast.Call):
+                    continue
+                t = au.call_tail(v)
+                if t in ("get_attribute", "attribute"):
+                    return f"`{au.src(v)[:60]}` (an attribute stored on the mesh by an earlier call)"
+                if any(k.arg == "persistent" and au.const(k.value) is True for k in v.keywords):
+                    return f"`{au.src(v)[:70]}` (persistent: computed once, then re-used)"
+    return None
+
+
 def w1_weight_modes(ctx):
     repo = ctx.repo
     # (a) shortest_path: every two-argument weight callable reads both endpoints; the custom mode goes through edge_id(u, v)
-    fn = repo.func(PATHS, "shortest_path")
-    params = set(au.params(fn))
+    fn0 = repo.func(PATHS, "shortest_path")
+    F = _flat(ctx, PATHS, fn0)
+    params = set(F.params)
     n = 0
-    for name, binds in sk.callable_bindings(fn).items():
-        for st, args in binds:
-            if not isinstance(st, ast.Assign):
-                continue
-            lam = st.value
-            ps = [a.arg for a in lam.args.posonlyargs + lam.args.args]
-            body = lam.body
-            s = ctx.site(PATHS, fn, st)
-            if order.fold_const(body) is not None:
-                n += 1
-                ctx.ok("C09-W1", s, "constant weight")
-                continue
-            n += 1
-            if len(ps) != 2:
-                continue   # arity is C09-A1's business
-            used = au.names(body)
-            ctx.check(set(ps) <= used, "C09-W1", s,
-                      f"weight callable `{name}` ignores one endpoint of the edge",
-                      f"`{au.src(lam)}` must be the weight of the edge between its two arguments", note="weight reads both endpoints")
-            # subscripts of a parameter of shortest_path (the custom weights) must be keyed by edge_id(u, v)
-            for sub in [x for x in au.walk(body) if isinstance(x, ast.Subscript) and isinstance(x.value, ast.Name) and x.value.id in params]:
-                k = sub.slice
-                okk = isinstance(k, ast.Call) and au.call_tail(k) == "edge_id" and len(k.args) == 2 and \
-                    sorted(a.id if isinstance(a, ast.Name) else "?" for a in k.args) == sorted(ps)
-                ctx.check(okk, "C09-W1", s, f"custom weights `{sub.value.id}` are indexed by `{_lam_generic(k, ps)}` instead of edge_id(u, v)",
-                          "caller-supplied weights are per edge: the key must be the id of the edge joining the two endpoints",
-                          note="custom weights keyed by edge_id(u, v)")
-            # vertex coordinates must be read at both endpoints
-            vs = [x for x in au.walk(body) if isinstance(x, ast.Subscript) and isinstance(x.value, ast.Attribute) and x.value.attr == "vertices"]
-            if vs:
-                idxs = sorted(x.slice.id if isinstance(x.slice, ast.Name) else "?" for x in vs)
-                ctx.check(idxs == sorted(ps), "C09-W1", s, "length weight does not measure the distance between the two endpoints",
-                          f"coordinates read at {idxs}", note="length = distance(P[u], P[v])")
+    for name, st, ps, body in _callable_bodies(F):
+        s = ctx.site(PATHS, fn0, st)
+        if len(ps) != 2:
+            continue   # arity is C09-A1's business; one-argument callables are not edge weights
+        n += 1
+        if body is None:
+            ctx.undecided("C09-W1", s, "a weight callable is not a single expression", "")
+            continue
+        if order.fold_const(body) is not None:
+            ctx.ok("C09-W1", s, "constant weight")
+            continue
+        body_r = F.resolve(body, st, keep=tuple(ps))
+        used = au.names(body_r)
+        ctx.check(set(ps) <= used, "C09-W1", s, "a weight callable ignores one endpoint of the edge",
+                  f"`{_lam_generic(body, ps)}` must be the weight of the edge between its two arguments", note="weight reads both endpoints")
+        for sub in [x for x in au.walk(body_r) if isinstance(x, ast.Subscript) and isinstance(x.value, ast.Name)]:
+            k = sub.slice
+            is_edge_key = isinstance(k, ast.Call) and au.call_tail(k) == "edge_id" and len(k.args) == 2 and \
+                sorted(a.id if isinstance(a, ast.Name) else "?" for a in k.args) == sorted(ps)
+            if sub.value.id in params:
+                if is_edge_key:
+                    ctx.ok("C09-W1", s, "custom weights keyed by edge_id(u, v)")
+                elif isinstance(k, ast.Name) and k.id in ps:
+                    ctx.fail("C09-W1", s, "custom weights are indexed by a vertex instead of edge_id(u, v)",
+                             "caller-supplied weights are per edge: the key must be the id of the edge joining the two endpoints")
+                else:
+                    ctx.undecided("C09-W1", s, "the key of the custom weights is not recognised", _lam_generic(k, ps)[:50])
+            elif is_edge_key:
+                stale = _stale_source(F, sub.value, skip=ps)
+                if stale:
+                    ctx.fail("C09-W1", s, "edge lengths are read from an attribute stored on the mesh instead of the current geometry",
+                             f"the weights come from {stale}: after the vertices move (or when the mesh already carries an attribute of that "
+                             "name) the query minimises stale lengths")
+        vs = [x for x in au.walk(body_r) if isinstance(x, ast.Subscript) and isinstance(x.value, ast.Attribute) and x.value.attr == "vertices"]
+        if vs:
+            idxs = sorted(x.slice.id if isinstance(x.slice, ast.Name) else "?" for x in vs)
+            ctx.check(idxs == sorted(ps), "C09-W1", s, "length weight does not measure the distance between the two endpoints",
+                      f"coordinates read at {['u' if i == ps[0] else 'v' if i == ps[1] else '?' for i in idxs]}", note="length = distance(P[u], P[v])")
     if n < 1:
-        ctx.fail("C09-W1", ctx.site(PATHS, fn), "weight callables of shortest_path not found", "no lambda bound to a local name selects the edge weight")
+        ctx.undecided("C09-W1", ctx.site(PATHS, fn0), "weight callables of shortest_path not recognised",
+                      "no lambda / local function of two arguments selects the edge weight")
     # (b) shortest_path_to_vertex_set: adjacency filled symmetrically from the edge list, custom weights by enumeration index
-    fn = repo.func(PATHS, "shortest_path_to_vertex_set")
-    site = ctx.site(PATHS, fn)
-    b = sym.Bindings(fn)
-    params = set(au.params(fn))
+    fn0 = repo.func(PATHS, "shortest_path_to_vertex_set")
+    F = _flat(ctx, PATHS, fn0)
+    fn = F.fn
+    site = ctx.site(PATHS, fn0)
+    b = F.b
+    params = set(F.params)
     n_loops = 0
     adj = None
     for lp in [st for st in au.stmts(fn.body) if isinstance(st, ast.For)]:
@@ -1230,63 +2082,106 @@ def w1_weight_modes(ctx):
                 and all(isinstance(x, ast.Name) for x in tgt.elts)):
             continue
         u, w = tgt.elts[0].id, tgt.elts[1].id
-        stores = [st for st in lp.body if isinstance(st, ast.Assign) and len(st.targets) == 1
-                  and isinstance(st.targets[0], ast.Subscript) and isinstance(st.targets[0].value, ast.Subscript)
-                  and isinstance(st.targets[0].value.value, ast.Name)]
+        stores = [(st, tg, val) for st, tg, val in hr.item_stores(lp) if isinstance(tg.value, ast.Subscript) and isinstance(tg.value.value, ast.Name)
+                  and val is not None]
         if not stores:
             continue
         n_loops += 1
-        s = ctx.site(PATHS, fn, lp)
-        adj = stores[0].targets[0].value.value.id
-        keys = sorted((au.src(st.targets[0].value.slice), au.src(st.targets[0].slice)) for st in stores
-                      if st.targets[0].value.value.id == adj)
-        ctx.check(keys == sorted([(u, w), (w, u)]), "C09-W1", s,
-                  "adjacency weights of the vertex-set query are not stored for both directions of the edge",
-                  f"stores found for {keys}; the graph is undirected: w(u,v) and w(v,u) are both needed", note="adj[u][v] and adj[v][u]")
-        vals = [b.resolve(st.value, at=st, keep=(u, w) + ((idx.id,) if isinstance(idx, ast.Name) else ())) for st in stores]
-        ctx.check(all(au.same(vals[0], x) for x in vals), "C09-W1", s,
-                  "the two directions of an edge receive different weights",
-                  "; ".join(au.src(x) for x in vals), note="same weight in both directions")
-        v0 = vals[0]
-        if order.fold_const(v0) is not None:
-            continue
-        subs = [x for x in au.walk(v0) if isinstance(x, ast.Subscript) and isinstance(x.value, ast.Name) and x.value.id in params]
-        for sub_ in subs:
-            k = sub_.slice
-            okk = (isinstance(idx, ast.Name) and isinstance(k, ast.Name) and k.id == idx.id) or \
-                  (isinstance(k, ast.Call) and au.call_tail(k) == "edge_id" and len(k.args) == 2 and
-                   sorted(a.id if isinstance(a, ast.Name) else "?" for a in k.args) == sorted([u, w]))
-            ctx.check(okk, "C09-W1", s,
-                      f"custom weights `{sub_.value.id}` are indexed by {'a vertex of the edge' if isinstance(k, ast.Name) and k.id in (u, w) else 'something other than the edge'} "
-                      "instead of the edge index",
-                      f"`{au.src(sub_)}`: caller-supplied weights are per edge (enumeration index of mesh.edges or edge_id(u, v))",
-                      note="custom weights keyed by the edge index")
-        vs = [x for x in au.walk(v0) if isinstance(x, ast.Subscript) and isinstance(x.value, ast.Attribute) and x.value.attr == "vertices"]
-        if vs:
-            idxs = sorted(x.slice.id if isinstance(x.slice, ast.Name) else "?" for x in vs)
-            ctx.check(idxs == sorted([u, w]), "C09-W1", s, "length weight does not measure the distance between the two endpoints",
-                      f"coordinates read at {idxs}", note="length = distance(P[u], P[v])")
-    if n_loops < 1:
-        ctx.fail("C09-W1", site, "weighted adjacency of the vertex-set query is not filled from the edge list",
-                 "no `for (u, v) in mesh.edges: adj[u][v] = w; adj[v][u] = w` loop found")
-    # (c) the sink is linked from every target
-    S = None
-    for name, v in b.defs.items():
-        c = au.const(v)
-        if b.single(name) and isinstance(c, int) and not isinstance(c, bool) and c < 0:
-            S = name
-    linked = False
-    if S and adj:
-        for lp in [st for st in au.stmts(fn.body) if isinstance(st, ast.For) and isinstance(st.target, ast.Name)]:
-            if not (isinstance(lp.iter, ast.Name) and lp.iter.id in params and not au.guards(lp)):
+        s = ctx.site(PATHS, fn0, lp)
+        adj = F.root(stores[0][1].value.value.id, lp)
+        groups = {}
+        for st, tg, val in stores:
+            if F.root(tg.value.value.id, lp) != adj:
                 continue
-            t = lp.target.id
-            for st in lp.body:
-                if isinstance(st, ast.Assign) and len(st.targets) == 1 and au.src(st.targets[0]) == f"{adj}[{t}][{S}]" \
-                        and order.fold_const(st.value) == 0:
-                    linked = True
-    ctx.check(linked, "C09-W1", site, "targets are not all linked to the virtual sink with weight 0",
-              "`for s in targets: adj[s][SINK] = 0` over the whole target list, unconditionally", note="adj[s][SINK] = 0 for every target")
+            gk = tuple(sorted((hr.key(e), p) for e, p in F.conds(st, stop=lp)))
+            groups.setdefault(gk, []).append((st, tg, val))
+        for gk, grp in groups.items():
+            def rn(x, at):
+                return F.root(x.id, at) if isinstance(x, ast.Name) else au.src(x)
+            keys = sorted((rn(tg.value.slice, st), rn(tg.slice, st)) for st, tg, val in grp)
+            if keys == sorted([(u, w), (w, u)]):
+                ctx.ok("C09-W1", s, "adj[u][v] and adj[v][u]")
+            elif set(keys) < {(u, w), (w, u)}:
+                _absent(ctx, F, lp, "C09-W1", s, "adjacency weights of the vertex-set query are not stored for both directions of the edge",
+                        f"{len(keys)} store(s): the graph is undirected: w(u,v) and w(v,u) are both needed")
+                continue
+            else:
+                ctx.undecided("C09-W1", s, "the adjacency stores of the vertex-set query are not of the form adj[u][v] / adj[v][u]", "")
+                continue
+            keepn = (u, w) + ((idx.id,) if isinstance(idx, ast.Name) else ())
+            vals = [F.resolve(val, st, keep=keepn) for st, tg, val in grp]
+            ctx.check(all(hr.same(vals[0], x) for x in vals), "C09-W1", s, "the two directions of an edge receive different weights", "",
+                      note="same weight in both directions")
+            v0 = vals[0]
+            if order.fold_const(v0) is not None:
+                continue
+            for sub_ in [x for x in au.walk(v0) if isinstance(x, ast.Subscript) and isinstance(x.value, ast.Name)]:
+                k = sub_.slice
+                is_idx = (isinstance(idx, ast.Name) and isinstance(k, ast.Name) and k.id == idx.id) or \
+                         (isinstance(k, ast.Call) and au.call_tail(k) == "edge_id" and len(k.args) == 2 and
+                          sorted(a.id if isinstance(a, ast.Name) else "?" for a in k.args) == sorted([u, w]))
+                if sub_.value.id in params:
+                    if is_idx:
+                        ctx.ok("C09-W1", s, "custom weights keyed by the edge index")
+                    elif isinstance(k, ast.Name) and k.id in (u, w):
+                        ctx.fail("C09-W1", s, "custom weights are indexed by a vertex of the edge instead of the edge index",
+                                 "caller-supplied weights are per edge (enumeration index of mesh.edges or edge_id(u, v))")
+                    else:
+                        ctx.undecided("C09-W1", s, "the key of the custom weights is not recognised", "")
+                elif is_idx:
+                    stale = _stale_source(F, sub_.value, skip=keepn)
+                    if stale:
+                        ctx.fail("C09-W1", s, "edge lengths are read from an attribute stored on the mesh instead of the current geometry",
+                                 f"the weights come from {stale}: after the vertices move (or when the mesh already carries an attribute of that "
+                                 "name) the query minimises stale lengths")
+            vs = [x for x in au.walk(v0) if isinstance(x, ast.Subscript) and isinstance(x.value, ast.Attribute) and x.value.attr == "vertices"]
+            if vs:
+                idxs = sorted(x.slice.id if isinstance(x.slice, ast.Name) else "?" for x in vs)
+                ctx.check(idxs == sorted([u, w]), "C09-W1", s, "length weight does not measure the distance between the two endpoints",
+                          "", note="length = distance(P[u], P[v])")
+    if n_loops < 1:
+        ctx.undecided("C09-W1", site, "weighted adjacency of the vertex-set query is not recognised",
+                      "no `for (u, v) in mesh.edges: adj[u][v] = w; adj[v][u] = w` loop found")
+    # (c) the sink is linked from every target
+    sents, used = sentinels(F, repo.module(PATHS))
+    cands = [x for x in sents if x in used]
+    if len(cands) != 1 or adj is None:
+        ctx.undecided("C09-W1", site, "the link between the targets and the virtual sink is not recognised", "")
+        return
+    Sn = cands[0]
+    dj = [st for st in au.stmts(fn.body) if isinstance(st, ast.While) and any(isinstance(n, ast.Name) and n.id in pq_names(fn) for n in au.walk(st))]
+    dj_loop = dj[0] if len(dj) == 1 else None
+    links = []
+    for st, tg, val in hr.item_stores(fn):
+        if isinstance(tg.value, ast.Subscript) and isinstance(tg.value.value, ast.Name) and F.root(tg.value.value.id, st) == adj \
+                and isinstance(tg.slice, ast.Name) and tg.slice.id == Sn and isinstance(tg.value.slice, ast.Name):
+            links.append((st, tg, val))
+    verdict = None
+    for st, tg, val in links:
+        t = tg.value.slice.id
+        lps = [a for a in au.ancestors(st) if isinstance(a, ast.For) and t in au.assigned_names(a.target)]
+        if not lps:
+            continue
+        lp = lps[0]
+        whole = isinstance(lp.iter, ast.Name) and lp.iter.id in params
+        unguarded = not F.conds(st, stop=lp) and (dj_loop is None or F.unconditional(lp, dj_loop))
+        zero = val is not None and order.fold_const(val) == 0
+        if whole and unguarded and zero:
+            verdict = "ok"
+        elif verdict is None:
+            if not zero and val is not None and order.fold_const(val) is not None:
+                verdict = ("fail", "the link to the virtual sink does not have weight 0")
+            elif isinstance(lp.iter, ast.Subscript) and isinstance(lp.iter.value, ast.Name) and lp.iter.value.id in params and isinstance(lp.iter.slice, ast.Slice):
+                verdict = ("fail", "only a slice of the target list is linked to the virtual sink")
+            elif whole and zero and F.conds(st, stop=lp):
+                verdict = ("fail", "targets are linked to the virtual sink only under a condition")
+    if verdict == "ok":
+        ctx.ok("C09-W1", site, "adj[s][SINK] = 0 for every target")
+    elif isinstance(verdict, tuple):
+        ctx.fail("C09-W1", site, "targets are not all linked to the virtual sink with weight 0",
+                 verdict[1] + ": `for s in targets: adj[s][SINK] = 0` over the whole target list, unconditionally")
+    else:
+        ctx.undecided("C09-W1", site, "the link between the targets and the virtual sink is not recognised", "")
 
 
 def _lam_generic(e, ps):
@@ -1295,96 +2190,169 @@ def _lam_generic(e, ps):
 
 
 # ----------------------------------------------------------------------- C09-B1
-def b1_backtracking(ctx):
+def b1_backtracking(ctx, roles_by_fn):
     repo = ctx.repo
-    n = 0
+    R = "C09-B1"
+    why = "the path must contain every vertex from the target back to the start exactly once, in start-to-target order, and no virtual vertex"
     for qual in ("shortest_path", "shortest_path_to_vertex_set"):
-        fn = repo.func(PATHS, qual)
-        site = ctx.site(PATHS, fn)
-        b = sym.Bindings(fn)
-        params = au.params(fn)
-        start = params[1] if len(params) > 1 else None
-        # predecessor tables = tables stored next to the label inside a comparison-guarded block
-        preds = set()
-        for st in au.stmts(fn.body):
-            if isinstance(st, ast.If) and isinstance(st.test, ast.Compare):
-                tabs = [s.targets[0].value.id for s in st.body if isinstance(s, ast.Assign) and len(s.targets) == 1 and sk.is_sub(s.targets[0])]
-                tested = {x.value.id for x in au.walk(st.test) if sk.is_sub(x)}
-                if any(t in tested for t in tabs):
-                    preds |= {t for t in tabs if t not in tested}
-        walks = []
-        for lp in [st for st in au.stmts(fn.body) if isinstance(st, ast.While)]:
-            t = lp.test
-            if isinstance(t, ast.Compare) and len(t.ops) == 1 and isinstance(t.ops[0], ast.NotEq) and isinstance(t.left, ast.Name) \
-                    and isinstance(t.comparators[0], ast.Name):
-                names = {t.left.id, t.comparators[0].id}
-                if start in names:
-                    cur = (names - {start}).pop() if len(names) == 2 else None
-                    if cur:
-                        walks.append((lp, cur))
-        n += 1
-        if len(walks) != 1:
-            ctx.fail("C09-B1", site, "predecessor back-tracking loop `while v != start` not found",
-                     f"{len(walks)} candidate loop(s)")
+        fn0 = repo.func(PATHS, qual)
+        F = _flat(ctx, PATHS, fn0)
+        site = ctx.site(PATHS, fn0)
+        rs = roles_by_fn.get(qual) or []
+        preds = {r["PRED"] for r in rs if r.get("PRED")}
+        start_names = _start_names(F, rs)
+        sents, _ = sentinels(F, repo.module(PATHS))
+        walks = hf_walk.find_walks(F, start_names)
+        if not walks:
+            ctx.undecided(R, site, "predecessor back-tracking loop `while v != start` not recognised", "")
             continue
-        lp, cur = walks[0]
-        s = ctx.site(PATHS, fn, lp)
-        steps = [st for st in lp.body if isinstance(st, ast.Assign) and len(st.targets) == 1 and isinstance(st.targets[0], ast.Name)
-                 and st.targets[0].id == cur]
-        pred = steps[0].value.value.id if len(steps) == 1 and sk.is_sub(steps[0].value, None, cur) else None
-        ok_step = pred is not None and pred in preds and len([x for x in au.stmts(lp.body)
-                                                                                      if cur in [nm for tg in au.assign_targets(x) for nm in au.assigned_names(tg)]]) == 1
-        ctx.check(ok_step, "C09-B1", s, "back-tracking does not step with `v = predecessor[v]` on the table written by the relaxation",
-                  f"expected a single unconditional `{cur} = pred[{cur}]` in the loop, pred among {sorted(preds)}; found "
-                  f"{[au.src(x) for x in steps]}", note=f"{cur} = {pred}[{cur}]")
-        if not ok_step:
-            continue
-        step = steps[0]
-        apps = [c for st in lp.body for c in au.calls(st) if au.call_tail(c) in ("append",) and len(c.args) == 1
-                and isinstance(c.args[0], ast.Name) and c.args[0].id == cur and not sk.path_conds(c, stop=lp)]
-        if len(apps) != 1:
-            ctx.fail("C09-B1", s, "back-tracking does not record exactly one node per step", f"{len(apps)} unconditional append({cur}) in the loop")
-            continue
-        app = apps[0]
-        lst = app.func.value
-        app_first = sk.index_in(lp.body, sk.top_stmt_in(lp.body, app)) < sk.index_in(lp.body, step)
-        init = b.reaching(cur, lp)
-        blk, _ = au.enclosing_block(lp)
-        i = sk.index_in(blk, lp)
-        post = blk[i + 1:]
-        post_start = [c for st in post for c in au.calls(st) if au.call_tail(c) == "append" and sk.same_l(c.func.value, lst)
-                      and len(c.args) == 1 and isinstance(c.args[0], ast.Name) and c.args[0].id == start
-                      and any(st is x for x in post)]
-        sentinel_init = isinstance(init, ast.Name) and isinstance(au.const(b.defs.get(init.id)), int) and au.const(b.defs.get(init.id)) < 0
-        if app_first:
-            # shape A: [append(v); v = pred[v]] ... append(start) afterwards; the initial node is a real vertex
-            okA = len(post_start) == 1 and not sentinel_init
-            ctx.check(okA, "C09-B1", s,
-                      "back-tracking records the current node before stepping but "
-                      + ("starts from the sentinel" if sentinel_init else "does not append `start` exactly once after the loop"),
-                      "the path must contain every vertex from the target back to the start exactly once, and no virtual vertex",
-                      note="target .. start recorded once each")
-        else:
-            # shape B: [v = pred[v]; append(v)]: the initial node is excluded, start is appended by the last iteration
-            okB = sentinel_init and not post_start
-            ctx.check(okB, "C09-B1", s,
-                      "back-tracking steps before recording but "
-                      + ("appends `start` a second time after the loop" if post_start else "does not start from the virtual sink: the target itself is dropped from the path"),
-                      "the path must contain every vertex from the target back to the start exactly once",
-                      note="sink excluded, nearest target .. start recorded once each")
-        rev = [c for st in post for c in au.calls(st) if au.call_tail(c) == "reverse" and sk.same_l(c.func.value, lst) and not c.args
-               and any(st is x for x in post)]
-        ctx.check(len(rev) == 1, "C09-B1", s, "back-tracked list is not reversed exactly once after the loop",
-                  "nodes are collected from the target towards the start; the returned path must begin at `start`",
-                  note="list reversed once")
+        for lp, w, msg in walks:
+            s = ctx.site(PATHS, fn0, lp)
+            if w is None:
+                ctx.undecided(R, s, msg, "what is recorded by this loop is not analysed here (aliasing of the result lists: see C09-B2)")
+                continue
+            pr_roots = {F.root(p_, lp) for p_ in preds}
+            if preds and w.pred not in pr_roots:
+                ctx.fail(R, s, "back-tracking does not step with `v = predecessor[v]` on the table written by the relaxation",
+                         "the table walked by the loop is not the predecessor table filled next to the labels")
+                continue
+            ctx.ok(R, s, "v = predecessor[v]")
+            if w.problem:
+                ctx.fail(R, s, "back-tracking does not record exactly one node per step", w.problem)
+                continue
+            origin = w.origin
+            origin_is_sentinel = None
+            if isinstance(origin, ast.Name):
+                origin_is_sentinel = origin.id in sents or F.root(origin.id, lp) in sents
+            rec_first = w.has_origin and not w.has_start
+            hf_walk.follow(F, w, start_names)
+            if w.problem:
+                ctx.fail(R, s, "back-tracking steps before recording but appends `start` a second time after the loop" if not rec_first
+                         else "back-tracking records `start` twice", why + ": " + w.problem)
+                continue
+            if w.unknown:
+                ctx.undecided(R, s, "what happens to the back-tracked list after the loop is not recognised", w.unknown)
+                continue
+            if w.final_use is None and not getattr(w, "reached_end", False) and not isinstance(w.lst, ast.Subscript):
+                ctx.undecided(R, s, "where the back-tracked list ends up is not recognised", "")
+                continue
+            if origin_is_sentinel is None:
+                ctx.undecided(R, s, "the node the back-tracking starts from is not recognised", "")
+                continue
+            if not w.has_start:
+                ctx.fail(R, s, "back-tracking records the current node before stepping but does not append `start` exactly once after the loop", why)
+                continue
+            if origin_is_sentinel and w.has_origin:
+                ctx.fail(R, s, "back-tracking records the current node before stepping but starts from the sentinel", why)
+                continue
+            if not origin_is_sentinel and not w.has_origin:
+                ctx.fail(R, s, "back-tracking steps before recording but does not start from the virtual sink: the target itself is dropped from the path", why)
+                continue
+            ctx.ok(R, s, "target .. start recorded once each" if not origin_is_sentinel else "sink excluded, nearest target .. start recorded once each")
+            if w.orient == "start-first":
+                ctx.ok(R, s, "list ends in start-to-target order")
+            else:
+                ctx.fail(R, s, "back-tracked list is not reversed exactly once after the loop",
+                         "nodes are collected from the target towards the start; the returned path must begin at `start`")
 
 
-# ----------------------------------------------------------------------- C09-R1
+# ----------------------------------------------------------------------- C09-B2
+INPLACE = ("append", "extend", "insert", "reverse", "sort", "pop", "remove", "clear")
+
+
+def b2_fresh_paths(ctx):
+    """an entry of the returned dictionary is never the object of another entry that is then changed in place"""
+    fn0 = ctx.repo.func(PATHS, "shortest_path")
+    F = _flat(ctx, PATHS, fn0)
+    fn = F.fn
+    site = ctx.site(PATHS, fn0)
+    rets = [st for st in au.stmts(fn.body) if isinstance(st, ast.Return) and st.value is not None]
+    D = set()
+    for r in rets:
+        v = r.value.elts[0] if isinstance(r.value, ast.Tuple) and r.value.elts else r.value
+        if isinstance(v, ast.Name):
+            D.add(F.root(v.id, r))
+    if len(D) != 1:
+        ctx.undecided("C09-B2", site, "the dictionary returned by shortest_path is not identified", "")
+        return
+    D = next(iter(D))
+
+    def reads_entry(e):
+        """e may evaluate to the very object stored under another key of D"""
+        if isinstance(e, ast.Subscript) and isinstance(e.value, ast.Name) and F.root(e.value.id, e) == D and not isinstance(e.slice, ast.Slice):
+            return True
+        if isinstance(e, ast.IfExp):
+            return reads_entry(e.body) or reads_entry(e.orelse)
+        if isinstance(e, ast.BoolOp):
+            return any(reads_entry(x) for x in e.values)
+        if isinstance(e, ast.Call) and isinstance(e.func, ast.Attribute) and e.func.attr in ("get", "setdefault") \
+                and isinstance(e.func.value, ast.Name) and F.root(e.func.value.id, e) == D:
+            return True
+        return False
+    # an entry of D that may be the very list stored under ANOTHER key:  D[k] = D[j]  /  x = D[j] ... D[k] = x   (j is not k)
+    shared_names = {}
+    shared_entries = []
+
+    def entry_key(e):
+        """key expression when e reads an entry of D (possibly one branch of a conditional), else None"""
+        if isinstance(e, ast.Subscript) and isinstance(e.value, ast.Name) and F.root(e.value.id, e) == D and not isinstance(e.slice, ast.Slice):
+            return e.slice
+        if isinstance(e, ast.IfExp):
+            return entry_key(e.body) or entry_key(e.orelse)
+        if isinstance(e, ast.BoolOp):
+            for x in e.values:
+                k_ = entry_key(x)
+                if k_ is not None:
+                    return k_
+        if isinstance(e, ast.Call) and isinstance(e.func, ast.Attribute) and e.func.attr in ("get", "setdefault") \
+                and isinstance(e.func.value, ast.Name) and F.root(e.func.value.id, e) == D and e.args:
+            return e.args[0]
+        return None
+    name_keys = {}
+    for st in au.stmts(fn.body):
+        if isinstance(st, ast.Assign) and len(st.targets) == 1:
+            t, v = st.targets[0], st.value
+            if isinstance(t, ast.Name) and entry_key(v) is not None:
+                name_keys[t.id] = (entry_key(v), st)
+    for st in au.stmts(fn.body):
+        if isinstance(st, ast.Assign) and len(st.targets) == 1:
+            t, v = st.targets[0], st.value
+            if isinstance(t, ast.Subscript) and isinstance(t.value, ast.Name) and F.root(t.value.id, st) == D:
+                src_key = entry_key(v)
+                via = None
+                if src_key is None and isinstance(v, ast.Name) and v.id in name_keys:
+                    src_key, via = name_keys[v.id][0], v.id
+                if src_key is not None and not hr.same(src_key, t.slice):
+                    shared_entries.append((st, t))
+                    if via:
+                        shared_names[via] = name_keys[via][1]
+    bad = []
+    for st in au.stmts(fn.body):
+        tgt = None
+        if isinstance(st, ast.AugAssign):
+            tgt = st.target
+        elif isinstance(st, ast.Expr) and isinstance(st.value, ast.Call) and isinstance(st.value.func, ast.Attribute) and st.value.func.attr in INPLACE:
+            tgt = st.value.func.value
+        if tgt is None:
+            continue
+        if isinstance(tgt, ast.Name) and tgt.id in shared_names and F.before(shared_names[tgt.id], st):
+            bad.append(st)
+        elif isinstance(tgt, ast.Subscript) and any(hr.same(tgt, t) and F.before(s_, st) for s_, t in shared_entries):
+            bad.append(st)
+    if bad:
+        ctx.fail("C09-B2", ctx.site(PATHS, fn0, bad[0]), "the path stored for one target is the list object of another target, extended in place",
+                 f"`{au.src(bad[0])[:60]}` changes a list that is also the value of another key of the returned dictionary: the path of the "
+                 "earlier target silently grows up to the later target and no longer ends at its own target")
+    else:
+        ctx.ok("C09-B2", site, "every returned path is a list of its own")
+
+
+# ----------------------------------------------------------------------- C09-R1 / R2
 def r1_forwarding(ctx):
     repo = ctx.repo
     m = repo.module(PATHS)
-    n = 0
     top = {q: f for q, f in m.funcs.items() if "." not in q}
+    n = 0
     for q, fn in sorted(top.items()):
         for c in au.calls(fn, into_funcs=True):
             if not (isinstance(c.func, ast.Name) and c.func.id in top):
@@ -1405,11 +2373,10 @@ def r1_forwarding(ctx):
             ctx.check(not bad and not too_many, "C09-R1", ctx.site(PATHS, fn, c),
                       f"call of {c.func.id} passes " + ", ".join(f"`{a}` into parameter `{p}`" for a, p in bad) if bad else
                       f"call of {c.func.id} passes too many arguments",
-                      f"`{au.src(c)}`: {c.func.id}{tuple(ps)} has a parameter of that name in another slot",
+                      f"{c.func.id}{tuple(ps)} has a parameter of that name in another slot",
                       note=f"{c.func.id}: same-named variables land in their parameters")
     if n < 1:
-        ctx.fail("C09-R1", ctx.site(PATHS, repo.func(PATHS, "shortest_path_to_border")), "delegating calls between the path functions not found",
-                 "shortest_path_to_border -> shortest_path_to_vertex_set -> shortest_path / build_path")
+        ctx.ok("C09-R1", ctx.site(PATHS, repo.func(PATHS, "shortest_path")), "no delegating call between the path functions")
     # ---- C09-R2: shared options are forwarded
     n2 = 0
     for q, fn in sorted(top.items()):
@@ -1431,9 +2398,8 @@ def r1_forwarding(ctx):
             n2 += 1
             ctx.check(not missing, "C09-R2", ctx.site(PATHS, fn, c),
                       f"{q} calls {c.func.id} without forwarding its own option(s) {', '.join('`' + m_ + '`' for m_ in missing)}",
-                      f"`{au.src(c)}`: {c.func.id} then runs with its default for {', '.join(missing)} whatever the caller of {q} asked for "
+                      f"{c.func.id} then runs with its default for {', '.join(missing)} whatever the caller of {q} asked for "
                       "(e.g. weights='one' or a custom weight table is ignored on this branch and the returned path is shortest for the wrong weights)",
                       note=f"{q} -> {c.func.id}: shared options forwarded")
     if n2 < 1:
-        ctx.fail("C09-R2", ctx.site(PATHS, repo.func(PATHS, "shortest_path_to_border")), "delegating calls with shared options not found",
-                 "shortest_path_to_border / shortest_path_to_vertex_set must delegate with weights and export_path_mesh")
+        ctx.ok("C09-R2", ctx.site(PATHS, repo.func(PATHS, "shortest_path")), "no delegating call shares a defaulted option")
